@@ -1,16 +1,33 @@
-"""Shared helpers of the ring-buffer extractors (expression translator, statement skeletons)."""
+"""Shared machinery of the ring-buffer extractors.
+
+Three parts:
+
+1. `tr` / `prop`: integer / boolean Python expression -> Lean term.  `prop` emits a *canonical* proposition (negations
+   pushed to the atoms, `>`/`≥` written as `<`/`≤`, operands of `=`/`≠`/`∧`/`∨` sorted, nested `∧`/`∨` flattened), so
+   that Lean-equivalent spellings of one test give one text.
+2. `normalize`: a behaviour-preserving normal form of a method (see the list of steps below).  It knows nothing about
+   the ring buffer except the table of side-effect-free callables `PURE_CALLS`.
+3. `match`: unification of the normal form with a recorded *pattern* (the normal form of the modelled method with
+   `HOLE_x` in place of every expression that is translated on each run).  Local names of the pattern are variables
+   (bound bijectively to the locals of the method), a hole binds the expression found in its place, everything else has
+   to be identical.  A method that does not unify with any recorded pattern raises `Bad` — the extractor never guesses.
+"""
 from __future__ import annotations
 
 import ast
+import copy
+import itertools
+import re
 
 
 class Bad(Exception):
     pass
 
 
-# ----------------------------------------------------------------------------- expression translator
-CMP = {ast.Lt: "<", ast.LtE: "≤", ast.Gt: ">", ast.GtE: "≥", ast.Eq: "=", ast.NotEq: "≠"}
+# ============================================================================= 1. Lean terms
 BIN = {ast.Add: "+", ast.Sub: "-", ast.Mult: "*", ast.FloorDiv: "/", ast.Mod: "%"}
+_CMP = {ast.Lt: "<", ast.LtE: "≤", ast.Gt: ">", ast.GtE: "≥", ast.Eq: "=", ast.NotEq: "≠"}
+_NOT = {"<": "≥", "≤": ">", ">": "≤", "≥": "<", "=": "≠", "≠": "="}
 
 
 def tr(n: ast.expr, names: dict[str, str]) -> str:
@@ -24,152 +41,370 @@ def tr(n: ast.expr, names: dict[str, str]) -> str:
         return f"({tr(n.left, names)} {BIN[type(n.op)]} {tr(n.right, names)})"
     if isinstance(n, ast.UnaryOp) and isinstance(n.op, ast.USub):
         return f"(-{tr(n.operand, names)})"
-    if isinstance(n, ast.Call) and isinstance(n.func, ast.Name) and n.func.id in ("max", "min") and len(n.args) == 2:
+    if isinstance(n, ast.Call) and isinstance(n.func, ast.Name) and n.func.id in ("max", "min") and len(n.args) == 2 \
+            and not n.keywords:
         # equal arguments are indistinguishable integers: Python's first-wins rule does not matter here
         return f"({n.func.id} {tr(n.args[0], names)} {tr(n.args[1], names)})"
     raise Bad(f"cannot translate expression `{src}`")
 
 
-def prop(n: ast.expr, names: dict[str, str]) -> str:
-    """Boolean Python expression -> decidable Lean `Prop`."""
+def _literal(t: str) -> bool:
+    return t[1:-1].lstrip("-").isdigit()
+
+
+def _atom(left: str, op: str, right: str) -> str:
+    if op == ">":
+        left, right, op = right, left, "<"
+    elif op == "≥":
+        left, right, op = right, left, "≤"
+    elif op in ("=", "≠") and (_literal(right), right) < (_literal(left), left):
+        left, right = right, left                     # sorted operands, a literal on the right
+    return f"({left} {op} {right})"
+
+
+def _ptree(n: ast.expr, names: dict[str, str], neg: bool):
     src = ast.unparse(n)
     if src in names:
-        return names[src]
+        return ("atom", f"(¬ {names[src]})" if neg else names[src])
+    if isinstance(n, ast.UnaryOp) and isinstance(n.op, ast.Not):
+        return _ptree(n.operand, names, not neg)
     if isinstance(n, ast.Compare):
         parts, left = [], n.left
         for op, right in zip(n.ops, n.comparators):
-            if type(op) not in CMP:
+            if type(op) not in _CMP:
                 raise Bad(f"comparison in `{src}`")
-            parts.append(f"{tr(left, names)} {CMP[type(op)]} {tr(right, names)}")
+            o = _CMP[type(op)]
+            parts.append(("atom", _atom(tr(left, names), _NOT[o] if neg else o, tr(right, names))))
             left = right
-        return "(" + " ∧ ".join(parts) + ")"
+        return parts[0] if len(parts) == 1 else ("or" if neg else "and", parts)
     if isinstance(n, ast.BoolOp):
-        # the operands are pure comparisons: `and` / `or` commute, so their order in the source is irrelevant
-        j = " ∧ " if isinstance(n.op, ast.And) else " ∨ "
-        return "(" + j.join(sorted(prop(v, names) for v in n.values)) + ")"
-    if isinstance(n, ast.UnaryOp) and isinstance(n.op, ast.Not):
-        return f"(¬ {prop(n.operand, names)})"
+        # the operands are pure integer comparisons: `and` / `or` commute, their order in the source is irrelevant
+        return ("and" if isinstance(n.op, ast.And) != neg else "or", [_ptree(v, names, neg) for v in n.values])
     raise Bad(f"cannot translate condition `{src}`")
 
 
-# ----------------------------------------------------------------------------- skeletons
-class Holes(ast.NodeTransformer):
-    """Replace the given expression nodes by `HOLE_<label>` names."""
+def _pshow(t) -> str:
+    if t[0] == "atom":
+        return t[1]
+    parts: set[str] = set()
 
-    def __init__(self, holes: dict[int, str]):
-        self.holes = holes
+    def add(c) -> None:
+        if c[0] == t[0]:
+            for g in c[1]:
+                add(g)
+        else:
+            parts.add(_pshow(c))
 
-    def visit(self, node):  # type: ignore[override]
-        if id(node) in self.holes:
-            return ast.copy_location(ast.Name(id=f"HOLE_{self.holes[id(node)]}", ctx=ast.Load()), node)
-        return super().visit(node)
-
-
-def strip_doc(fn: ast.FunctionDef) -> list[ast.stmt]:
-    body = fn.body
-    if body and isinstance(body[0], ast.Expr) and isinstance(body[0].value, ast.Constant) and isinstance(body[0].value.value, str):
-        body = body[1:]
-    return body
+    add(t)
+    ps = sorted(parts)
+    return ps[0] if len(ps) == 1 else "(" + (" ∧ " if t[0] == "and" else " ∨ ").join(ps) + ")"
 
 
-def skeleton(fn: ast.FunctionDef, holes: dict[int, str]) -> str:
-    import copy
-
-    # NodeTransformer mutates: work on a deep copy, mapping ids through a parallel walk
-    orig_nodes = list(ast.walk(fn))
-    cp = copy.deepcopy(fn)
-    cp_nodes = list(ast.walk(cp))
-    assert len(orig_nodes) == len(cp_nodes)
-    m = {id(c): holes[id(o)] for o, c in zip(orig_nodes, cp_nodes) if id(o) in holes}
-    cp = Holes(m).visit(cp)
-    cp.body = strip_doc(cp)
-    cp.decorator_list = []
-    cp.returns = None
-    for a in cp.args.args + cp.args.kwonlyargs:
-        a.annotation = None
-    ast.fix_missing_locations(cp)
-    return "\n".join(line.rstrip() for line in ast.unparse(cp).splitlines())
+def prop(n: ast.expr, names: dict[str, str]) -> str:
+    """Boolean Python expression over integer comparisons -> canonical decidable Lean `Prop`."""
+    return _pshow(_ptree(n, names, False))
 
 
-def _bindings(fn: ast.FunctionDef) -> list[str]:
-    """Local names of `fn` in order of first binding: parameters (without `self`), then assignment / loop /
-    comprehension / lambda targets in source order."""
-    seen: list[str] = []
-
-    def add(name: str) -> None:
-        if name != "self" and name not in seen:
-            seen.append(name)
-
-    class V(ast.NodeVisitor):
-        def visit_Lambda(self, node):  # noqa: N802
-            self.visit(node.body)
-
-        def visit_arg(self, node):  # noqa: N802
-            add(node.arg)
-
-        def visit_Name(self, node):  # noqa: N802
-            if isinstance(node.ctx, ast.Store):
-                add(node.id)
-
-    V().visit(fn)
-    return seen
+def lean_prop(name: str, params: str, body: str, doc: str) -> str:
+    """A translated condition as an opaque `def … : Prop` with its `Decidable` instance.  Not an `abbrev`: the proofs
+    must go through the `…_iff` lemmas of `Lemmas/RingBuffer*.lean` (proved by `unfold; omega` whatever the spelling
+    of the condition is), never through the shape of the generated term."""
+    args = " ".join(re.findall(r"[A-Za-z_][A-Za-z0-9_]*(?=[^():]*:)", params))
+    return (f"/-- {doc} -/\ndef {name} {params} : Prop := {body}\n\n"
+            f"instance {params} : Decidable ({name} {args}) := inferInstanceAs (Decidable {body if body.startswith('(') else '(' + body + ')'})\n")
 
 
-def _rename(fn: ast.FunctionDef, mapping: dict[str, str]) -> ast.FunctionDef:
-    import copy
-
-    cp = copy.deepcopy(fn)
-    for node in ast.walk(cp):
-        if isinstance(node, ast.Name) and node.id in mapping:
-            node.id = mapping[node.id]
-        elif isinstance(node, ast.arg) and node.arg in mapping:
-            node.arg = mapping[node.arg]
-    return cp
-
-
-# ----------------------------------------------------------------------------- behaviour-preserving normal form
-# The recorded skeletons are in this normal form, and every method is brought into it before it is compared and
-# before the holes are located.  Each step preserves the behaviour of the method:
-#   * docstring, `assert`, `_logger.*` calls and annotations are dropped (not modelled);
-#   * lambda parameters are renamed `_lam0, _lam1, …`;
-#   * `not (A or B)` / `not (A and B)` are pushed inward (De Morgan), `not not A` is `A`;
-#   * `x = A if C else B` is written as `if C: x = A else: x = B`;
-#   * `if A: (if B: X)` without any `else` is `if A and B: X`;   `v = E; return v` at the end of a block is `return E`;
-#   * two consecutive `if`s on the same local variable `A` (`if not A: X` / `if A: Y else: Z`, `if A: X` / `if A: …`,
-#     `if A: X` / `if not A: Y`) are merged into one `if A: … else: …` when `X` does not assign `A`;
-#   * after `v = c[i]` (an element of a container), `c[i]` is written `v` in the following tests and in each branch up to
-#     the first statement that could change the container or `v`;
-#   * polarity: `if <negative test>: A else: B` becomes `if <positive test>: B else: A`, and
-#     `if <negative test>: A; R` with `A`, `R` both ending the function/iteration and `R` the single last statement becomes
-#     `if <positive test>: R; A`   (negative = `not X`, `!=`, `>=`, `>`, `is not`, `not in`);
-#   * runs of plain assignments are put into the lexicographically least order reachable by swapping ADJACENT
-#     INDEPENDENT statements (no write/read or write/write overlap; different attributes of possibly aliased objects
-#     are independent, the same attribute of two objects is not; anything that calls a non-pure function is a barrier).
-NEGATED = {ast.NotEq: ast.Eq, ast.GtE: ast.Lt, ast.Gt: ast.LtE, ast.IsNot: ast.Is, ast.NotIn: ast.In}
+# ============================================================================= 2. behaviour-preserving normal form
+# Every step preserves the behaviour of the method.  (The modelled quantities are integers / datetimes / timedeltas:
+# total orders without NaN — every comparison that survives outside a hole is pinned by a pattern, every comparison
+# inside a hole is translated by `prop` to `Int`.  "Pure" = no side effect (`PURE_CALLS`, `PURE_METHODS`);
+# "stateless" = pure and depending on the arguments only (`STATELESS_CALLS`); "total" = pure and unable to raise
+# (`_total`): only a total expression is ever dropped, duplicated past a side effect or moved across one.)
+#   a. docstring, `pass`, `assert`, `_logger.*` calls, annotations and the (pure) message of a raised exception are
+#      dropped (not modelled); `return None` is `return`;
+#   b. `match x: case T(): …` is `if isinstance(x, T): … elif …`; `x = A if C else B` / `return A if C else B` are
+#      `if`s; `a, b = X, Y` is `a = X; b = Y` when `Y` does not read `a`; `x = x + 1` is `x += 1`;
+#      `v = <simple>; if C: v = X` is `if C: v = X else: v = <simple>`;
+#   c. tests are in negation normal form (`not` pushed through `and`/`or` and into single comparisons; a chained
+#      comparison over a simple middle operand is a conjunction);
+#   d. `map(lambda x: E, it)` / `filter(lambda x: P, it)` are generator expressions, a generator over `enumerate(…)`
+#      unpacks the pair, comprehension / lambda variables are renamed apart; the loops `acc = 0; for …: acc += E`,
+#      `for …: if P: return True` + `return False` (and the `all` dual), `for …: if P: return V` + `return D`,
+#      `v = D; for …: if P: v = V; break` are `sum(…)`, `any(…)`, `all(…)`, `next((…), D)` over a generator (the
+#      loop variables must not be used after the loop);
+#   e. calls of private helpers of the same class (or module) that have no pattern of their own are inlined (as an
+#      expression when the helper is one `return E` and the arguments are simple, as statements for `return h(…)`,
+#      `x = h(…)`, `h(…)`);
+#   f. the function is split on every parameter that is used as a condition and never assigned (`if p: <all> else:
+#      <all>`), and inside an `if` on a local that cannot change its tests on that local are decided;
+#   g. decisions: when a path through an `if` leaves the block (or all that follows is one `return`/`raise`), what
+#      follows the `if` belongs to its branches; equal first statements of both branches come before a total test,
+#      equal last statements after an `if` that no path leaves; of two branches the one that always ends comes
+#      first (of two that end, a lone `raise`, then a lone `return`), otherwise the test is made positive; `if A: (if
+#      B: X else: Y) else: Y` is `if A and B: X else: Y` (and the `or` dual), `if A and B: X elif A: Y else: R` is
+#      `if A: (if B: X else: Y) else: R`; boolean functions: `if C: return True else: return E` is `return C or E`,
+#      …; the `else` after a branch that ends is un-nested; a trailing `continue` / bare `return` is dropped;
+#      `v = E; return v` is `return E`;
+#   h. consecutive `if`s on the same local variable are merged when the first does not assign it; after `v = c[i]`
+#      (an element of a container), `c[i]` is written `v` up to the first statement that could change `c` or `v`;
+#   i. `v = E1; …; v = E2` in one block: the first definition gets a name of its own; then a local defined by a pure
+#      expression is replaced by that expression at its uses when (1) it is the only definition reaching them (the
+#      only assignment, or the rest of the block leaves the function), (2) nothing from the definition to the last use
+#      can change what the expression reads (names, attributes — of any object, they may alias —, container contents;
+#      an unknown call may change anything but attributes that only `__init__` assigns), (3) with several uses the
+#      expression is call-free or calls stateless functions only, (4) an expression that may raise is first evaluated
+#      before any side effect that used to come after it;
+#   j. runs of plain assignments (and `if`s made of them) are put into the lexicographically least order reachable
+#      by swapping ADJACENT INDEPENDENT statements.
+# The steps are repeated until nothing changes.
+NEG_OP = {ast.Lt: ast.GtE, ast.GtE: ast.Lt, ast.LtE: ast.Gt, ast.Gt: ast.LtE, ast.Eq: ast.NotEq, ast.NotEq: ast.Eq,
+          ast.Is: ast.IsNot, ast.IsNot: ast.Is, ast.In: ast.NotIn, ast.NotIn: ast.In}
+NEGATIVE_OPS = (ast.NotEq, ast.GtE, ast.Gt, ast.IsNot, ast.NotIn)
 PURE_CALLS = {
-    "max", "min", "len", "isinstance", "deepcopy", "round", "int", "sum", "any", "map", "filter", "enumerate", "next",
-    "slice", "timedelta", "Gap", "np.array", "divmod",
+    "max", "min", "len", "isinstance", "deepcopy", "round", "int", "sum", "any", "all", "map", "filter", "enumerate",
+    "next", "slice", "timedelta", "Gap", "np.array", "divmod", "sorted", "abs", "bool", "range", "zip",
     "self.normalize_timestamp", "self.to_internal_index", "self.get_timestamp", "self.wrap", "self.is_missing",
     "self.has_value", "self.count_covered", "self.count_valid", "self._wrapped_buffer_window",
     "self._to_covered_indices", "self._covered_time_range",
     "self._buffer.count_covered", "self._buffer.count_valid", "self._buffer.get_timestamp",
     "self._buffer.normalize_timestamp", "self._buffer.is_missing", "self._buffer.to_internal_index",
 }
+# pure calls whose result depends on their arguments only (and on attributes that are never re-assigned)
+STATELESS_CALLS = {"max", "min", "isinstance", "round", "int", "slice", "timedelta", "Gap", "divmod", "abs", "bool",
+                   "range", "self.has_value", "self.normalize_timestamp", "self.wrap", "self._buffer.normalize_timestamp"}
+# side-effect-free methods of the value objects (`Quantity.isnan`, `Gap.contains`, `timedelta.total_seconds`, …)
+PURE_METHODS = {"isnan", "contains", "total_seconds", "timestamp", "indices"}
+# private methods that have a pattern of their own (never inlined into their callers)
+MODELLED_PRIVATE = {"_update_gaps", "_cleanup_gaps", "_remove_gap", "_fill_gaps", "_wrapped_buffer_window",
+                    "_to_covered_indices", "_covered_time_range"}
 
 
-def _positive(test: ast.expr) -> ast.expr | None:
-    """The negation of a negative test, as a positive test; None when `test` is not negative."""
-    if isinstance(test, ast.UnaryOp) and isinstance(test.op, ast.Not):
-        return test.operand
-    if isinstance(test, ast.Compare) and len(test.ops) == 1 and type(test.ops[0]) in NEGATED:
-        return ast.Compare(left=test.left, ops=[NEGATED[type(test.ops[0])]()], comparators=test.comparators)
-    return None
+def _name(id_: str, ctx=None) -> ast.Name:
+    return ast.Name(id=id_, ctx=ctx or ast.Load())
 
 
-def _ends(stmts: list[ast.stmt]) -> bool:
-    return bool(stmts) and isinstance(stmts[-1], (ast.Return, ast.Raise, ast.Continue, ast.Break))
+def _dump(n) -> str:
+    if isinstance(n, list):
+        return "[" + ",".join(_dump(x) for x in n) + "]"
+    return ast.dump(n)
 
 
+# ----------------------------------------------------------------------------- tests
+def negate(t: ast.expr) -> ast.expr:
+    if isinstance(t, ast.UnaryOp) and isinstance(t.op, ast.Not):
+        return t.operand
+    if isinstance(t, ast.Compare) and len(t.ops) == 1:
+        return ast.Compare(left=t.left, ops=[NEG_OP[type(t.ops[0])]()], comparators=t.comparators)
+    if isinstance(t, ast.BoolOp):
+        dual = ast.Or() if isinstance(t.op, ast.And) else ast.And()
+        return ast.BoolOp(op=dual, values=[negate(v) for v in t.values])
+    return ast.UnaryOp(op=ast.Not(), operand=t)
+
+
+def is_negative(t: ast.expr) -> bool:
+    """Exactly one of `t`, `negate(t)` is negative."""
+    if isinstance(t, ast.UnaryOp) and isinstance(t.op, ast.Not):
+        return True
+    if isinstance(t, ast.Compare) and len(t.ops) == 1:
+        return isinstance(t.ops[0], NEGATIVE_OPS)
+    if isinstance(t, ast.BoolOp):
+        n = sum(1 for v in t.values if is_negative(v))
+        p = len(t.values) - n
+        return n > p or (n == p and isinstance(t.op, ast.Or))
+    return False
+
+
+def _simple(e: ast.AST) -> bool:
+    """Side-effect-free and cheap: a name, a constant, an attribute path, `-x`."""
+    if isinstance(e, (ast.Name, ast.Constant)):
+        return True
+    if isinstance(e, ast.Attribute):
+        return _simple(e.value)
+    if isinstance(e, ast.UnaryOp) and isinstance(e.op, ast.USub):
+        return _simple(e.operand)
+    return False
+
+
+# queries that cannot raise (on the objects they are used with): evaluating them may be skipped, repeated or moved
+TOTAL_CALLS = {"isinstance", "len", "self.has_value", "self.is_missing", "self.count_covered", "self.count_valid",
+               "self.normalize_timestamp", "self._buffer.count_covered", "self._buffer.count_valid",
+               "self._buffer.is_missing", "self._buffer.normalize_timestamp"}
+
+
+def _total(e: ast.expr) -> bool:
+    """No side effect and nothing that can raise: names, attributes of `self`, constants, comparisons / `not` /
+    `and` / `or` of those, the queries of `TOTAL_CALLS`.  Such operands of `and`/`or` may be evaluated in any order,
+    and such a test may be dropped when its outcome does not matter."""
+    for n in ast.walk(e):
+        if isinstance(n, ast.Attribute):
+            base = n.value
+            while isinstance(base, ast.Attribute):
+                base = base.value
+            if not (isinstance(base, ast.Name) and base.id == "self"):
+                return False
+        elif isinstance(n, ast.Call):
+            if _call_name(n) not in TOTAL_CALLS:
+                return False
+        elif isinstance(n, (ast.Subscript, ast.BinOp, ast.Lambda, ast.Await, ast.NamedExpr, ast.IfExp,
+                            ast.GeneratorExp, ast.ListComp, ast.SetComp, ast.DictComp, ast.Yield, ast.YieldFrom)):
+            return False
+    return True
+
+
+def _is_bool(e: ast.expr) -> bool:
+    if isinstance(e, ast.Compare):
+        return True
+    if isinstance(e, ast.UnaryOp) and isinstance(e.op, ast.Not):
+        return True
+    if isinstance(e, ast.BoolOp):
+        return all(_is_bool(v) for v in e.values)
+    if isinstance(e, ast.Call) and ast.unparse(e.func) in ("isinstance", "any", "all", "bool"):
+        return True
+    return isinstance(e, ast.Constant) and isinstance(e.value, bool)
+
+
+def _always_ends(stmts: list[ast.stmt]) -> bool:
+    if not stmts:
+        return False
+    s = stmts[-1]
+    if isinstance(s, (ast.Return, ast.Raise, ast.Continue, ast.Break)):
+        return True
+    return isinstance(s, ast.If) and _always_ends(s.body) and _always_ends(s.orelse)
+
+
+def _may_end(s: ast.stmt) -> bool:
+    """Does some path through the statement leave the enclosing block (return / raise / continue / break)?"""
+    def walk(n: ast.AST, in_loop: bool) -> bool:
+        if isinstance(n, (ast.Return, ast.Raise)):
+            return True
+        if isinstance(n, (ast.Continue, ast.Break)):
+            return not in_loop
+        if isinstance(n, (ast.FunctionDef, ast.AsyncFunctionDef, ast.ClassDef, ast.Lambda)):
+            return False
+        inner = in_loop or isinstance(n, (ast.For, ast.While))
+        return any(walk(c, inner) for c in ast.iter_child_nodes(n))
+    return walk(s, False)
+
+
+# ----------------------------------------------------------------------------- reads / writes
+class _Eff:
+    """What an expression reads / a statement may write.  `names`: local roots; `attrs`: attribute names (of any
+    object: two paths may alias); `state`: mutable state in general (container contents, whatever a method touches)."""
+
+    def __init__(self) -> None:
+        self.names: set[str] = set()
+        self.attrs: set[str] = set()
+        self.state = False
+        self.argstate = False      # (reads) the fields of the objects handed to a stateless call …
+        self.argroots: set[str] = set()   # … which are reached through these names
+        self.attr_roots: set[str] = set()  # (writes) names whose attributes are assigned; "?" = some other object
+        self.impure = False
+
+
+def _call_name(n: ast.Call) -> str:
+    try:
+        return ast.unparse(n.func)
+    except Exception:  # pragma: no cover
+        return "?"
+
+
+def _is_pure_call(n: ast.Call) -> bool:
+    if _call_name(n) in PURE_CALLS:
+        return True
+    return isinstance(n.func, ast.Attribute) and n.func.attr in PURE_METHODS
+
+
+def _reads(e: ast.AST, final: set[str]) -> _Eff:
+    r = _Eff()
+    for n in ast.walk(e):
+        if isinstance(n, ast.Name):
+            r.names.add(n.id)
+        elif isinstance(n, ast.Attribute):
+            if n.attr not in final:
+                r.attrs.add(n.attr)
+        elif isinstance(n, ast.Subscript):
+            r.state = True
+        elif isinstance(n, ast.Call):
+            f = _call_name(n)
+            if not _is_pure_call(n):
+                r.impure = True
+            if f in STATELESS_CALLS:
+                for a in list(n.args) + [k.value for k in n.keywords]:
+                    if not isinstance(a, ast.Constant):
+                        r.argstate = True
+                        r.argroots |= {x.id for x in ast.walk(a) if isinstance(x, ast.Name)}
+            else:
+                r.state = True
+        elif isinstance(n, (ast.Await, ast.Yield, ast.YieldFrom, ast.NamedExpr, ast.Lambda)):
+            r.impure = True
+    return r
+
+
+def _writes(s: ast.AST, final: set[str]) -> _Eff:
+    w = _Eff()
+    for n in ast.walk(s):
+        if isinstance(n, ast.Name) and isinstance(n.ctx, (ast.Store, ast.Del)):
+            w.names.add(n.id)
+        elif isinstance(n, ast.Attribute) and isinstance(n.ctx, (ast.Store, ast.Del)):
+            w.attrs.add(n.attr)
+            w.attr_roots.add(n.value.id if isinstance(n.value, ast.Name) else "?")
+        elif isinstance(n, ast.Subscript) and isinstance(n.ctx, (ast.Store, ast.Del)):
+            w.state = True
+        elif isinstance(n, ast.AugAssign):
+            t = n.target
+            if isinstance(t, ast.Name):
+                w.names.add(t.id)
+            elif isinstance(t, ast.Attribute):
+                w.attrs.add(t.attr)
+                w.attr_roots.add(t.value.id if isinstance(t.value, ast.Name) else "?")
+            else:
+                w.state = True
+        elif isinstance(n, ast.Call) and not _is_pure_call(n):
+            w.state = True
+            w.impure = True
+        elif isinstance(n, (ast.Await, ast.Yield, ast.YieldFrom, ast.NamedExpr)):
+            w.state = True
+            w.impure = True
+    return w
+
+
+def _interferes(w: _Eff, r: _Eff) -> bool:
+    if w.names & r.names or w.attrs & r.attrs:
+        return True
+    if w.impure and (r.attrs or r.state):
+        return True             # an unknown callable may assign any (non-final) attribute
+    if (w.state or w.attrs) and r.state:
+        return True             # a query of the object's state after a container / attribute was changed
+    if r.argstate and (w.impure or "?" in w.attr_roots or (w.attr_roots & r.argroots)):
+        return True             # (an attribute of another local is assigned: not a field of these arguments)
+    return False
+
+
+def final_attrs(tree: ast.Module) -> set[str]:
+    """Attribute names that are only ever assigned inside `__init__` methods (or class bodies) of the module."""
+    assigned_outside: set[str] = set()
+    seen: set[str] = set()
+
+    def visit(node: ast.AST, in_init: bool) -> None:
+        for c in ast.iter_child_nodes(node):
+            if isinstance(c, (ast.FunctionDef, ast.AsyncFunctionDef)):
+                visit(c, c.name == "__init__")
+                continue
+            if isinstance(c, ast.Attribute):
+                seen.add(c.attr)
+                if isinstance(c.ctx, (ast.Store, ast.Del)) and not in_init:
+                    assigned_outside.add(c.attr)
+            if isinstance(c, ast.Call) and _call_name(c) in ("setattr", "delattr", "object.__setattr__"):
+                assigned_outside.add("*")
+            visit(c, in_init)
+
+    visit(tree, False)
+    if "*" in assigned_outside:
+        return set()
+    return seen - assigned_outside
+
+
+# ----------------------------------------------------------------------------- independent statements (step j)
 def _paths(e: ast.AST) -> tuple[set[str], bool]:
     """Access paths (dotted names) read by an expression, and whether it is free of non-pure calls."""
     reads: set[str] = set()
@@ -185,10 +420,10 @@ def _paths(e: ast.AST) -> tuple[set[str], bool]:
                 reads.add(ast.unparse(n))
                 return
         if isinstance(n, ast.Call):
-            f = ast.unparse(n.func)
-            if f not in PURE_CALLS and not f.startswith("_lam"):
+            f = _call_name(n)
+            if not _is_pure_call(n):
                 pure = False
-            if f.startswith("self."):
+            if f.startswith("self.") and f not in STATELESS_CALLS:
                 reads.add("self")          # a method may read any attribute of `self`
             for a in list(n.args) + [k.value for k in n.keywords]:
                 walk(a)
@@ -205,7 +440,19 @@ def _paths(e: ast.AST) -> tuple[set[str], bool]:
 
 
 def _effects(s: ast.stmt) -> tuple[set[str], set[str]] | None:
-    """(reads, writes) of a plain assignment; None = barrier."""
+    """(reads, writes) of a plain assignment, or of an `if` made of plain assignments; None = barrier."""
+    if isinstance(s, ast.If):
+        reads, pure = _paths(s.test)
+        if not pure or not (s.body or s.orelse):
+            return None
+        writes: set[str] = set()
+        for x in s.body + s.orelse:
+            e = _effects(x)
+            if e is None:
+                return None
+            reads |= e[0]
+            writes |= e[1]
+        return reads, writes
     if not isinstance(s, ast.Assign):
         return None
     writes: set[str] = set()
@@ -233,7 +480,7 @@ def _overlap(p: str, q: str) -> bool:
     return len(a) > 1 and len(b) > 1 and a[0] != b[0] and a[-1] == b[-1]   # same attribute of maybe the same object
 
 
-def _independent(x: tuple[set[str], set[str]] | None, y: tuple[set[str], set[str]] | None) -> bool:
+def _independent(x, y) -> bool:
     if x is None or y is None:
         return False
     (rx, wx), (ry, wy) = x, y
@@ -252,34 +499,40 @@ def _normal_order(stmts: list[ast.stmt], key) -> list[ast.stmt]:
     return out
 
 
-
+# ----------------------------------------------------------------------------- step g / h (unchanged in spirit)
 def _stores(stmts: list[ast.stmt]) -> set[str]:
     return {n.id for s in stmts for n in ast.walk(s) if isinstance(n, ast.Name) and isinstance(n.ctx, (ast.Store, ast.Del))}
 
 
 def _merge_ifs(stmts: list[ast.stmt]) -> list[ast.stmt]:
-    """Merge consecutive `if`s that test the same plain local variable (see the list of normal-form steps)."""
+    """Merge consecutive `if`s that test the same plain local variable; `v = <const>; if C: v = X` is
+    `if C: v = X else: v = <const>`."""
     out: list[ast.stmt] = []
     for s in stmts:
         prev = out[-1] if out else None
+        if (isinstance(prev, ast.Assign) and len(prev.targets) == 1 and isinstance(prev.targets[0], ast.Name)
+                and _simple(prev.value) and isinstance(s, ast.If) and not s.orelse and len(s.body) == 1
+                and isinstance(s.body[0], ast.Assign) and len(s.body[0].targets) == 1
+                and isinstance(s.body[0].targets[0], ast.Name) and s.body[0].targets[0].id == prev.targets[0].id
+                and not _mentions([s.test, s.body[0].value], {prev.targets[0].id})):
+            out[-1] = ast.If(test=s.test, body=s.body, orelse=[prev])
+            continue
         if isinstance(prev, ast.If) and isinstance(s, ast.If) and not prev.orelse:
-            def var(t: ast.expr) -> tuple[str, bool] | None:
+            def var(t: ast.expr):
                 if isinstance(t, ast.Name):
                     return t.id, True
                 if isinstance(t, ast.UnaryOp) and isinstance(t.op, ast.Not) and isinstance(t.operand, ast.Name):
                     return t.operand.id, False
                 return None
             a, b = var(prev.test), var(s.test)
-            if a and b and a[0] == b[0] and a[0] not in _stores(prev.body):
-                name = ast.Name(id=a[0], ctx=ast.Load())
+            if a and b and a[0] == b[0] and a[0] not in _stores(prev.body) and not _always_ends(prev.body):
+                name = _name(a[0])
                 x, y, z = prev.body, s.body, s.orelse
                 if a[1] == b[1]:            # if T: X ; if T: Y else: Z   ->  if T: X; Y  else: Z
                     then, els = x + y, z
-                    pos = a[1]
                 else:                        # if T: X ; if ¬T: Y else: Z  ->  if T: X; Z  else: Y
                     then, els = x + z, y
-                    pos = a[1]
-                if pos:
+                if a[1]:
                     merged = ast.If(test=name, body=then, orelse=els)
                 elif els:
                     merged = ast.If(test=name, body=els, orelse=then)
@@ -304,11 +557,10 @@ def _alias_elements(stmts: list[ast.stmt]) -> None:
 
         def visit_Subscript(self, node):  # noqa: N802
             if isinstance(node.ctx, ast.Load) and ast.unparse(node) == self.text:
-                return ast.copy_location(ast.Name(id=self.v, ctx=ast.Load()), node)
+                return ast.copy_location(_name(self.v), node)
             return self.generic_visit(node)
 
     def safe(s: ast.stmt, names: set[str]) -> bool:
-        """May `s` be passed without invalidating the alias?  (plain pure assignment not touching its names)"""
         eff = _effects(s)
         return eff is not None and not any(w.split(".")[0] in names for w in eff[1])
 
@@ -337,146 +589,1286 @@ def _alias_elements(stmts: list[ast.stmt]) -> None:
             rewrite(stmts[i + 1:], Sub(ast.unparse(s.value), s.targets[0].id), names)
 
 
-def normalize(fn: ast.FunctionDef) -> ast.FunctionDef:
-    import copy
+# ----------------------------------------------------------------------------- steps a–d: node-level rewrites
+def _subst(e: ast.AST, mapping: dict[str, ast.expr]) -> ast.AST:
+    """Copy of `e` with the (Load) names of `mapping` replaced."""
 
-    fn = copy.deepcopy(fn)
-    fn.body = strip_doc(fn)
-    fn.decorator_list = []
-    fn.returns = None
-    for a in fn.args.args + fn.args.kwonlyargs:
-        a.annotation = None
-
-    class Drop(ast.NodeTransformer):
-        def visit_Expr(self, node):  # noqa: N802
-            if isinstance(node.value, ast.Call) and ast.unparse(node.value.func).startswith("_logger."):
-                return None
+    class S(ast.NodeTransformer):
+        def visit_Name(self, node):  # noqa: N802
+            if isinstance(node.ctx, ast.Load) and node.id in mapping:
+                return copy.deepcopy(mapping[node.id])
             return node
 
-        def visit_Assert(self, node):  # noqa: N802
+    return S().visit(copy.deepcopy(e))
+
+
+def _genexp(elt: ast.expr, target: ast.expr, it: ast.expr, ifs: list[ast.expr]) -> ast.GeneratorExp:
+    return ast.GeneratorExp(elt=elt, generators=[ast.comprehension(target=target, iter=it, ifs=ifs, is_async=0)])
+
+
+def _store(t: ast.expr) -> ast.expr:
+    t = copy.deepcopy(t)
+    for n in ast.walk(t):
+        if isinstance(n, (ast.Name, ast.Tuple, ast.List, ast.Attribute, ast.Subscript, ast.Starred)) and hasattr(n, "ctx"):
+            if isinstance(n, (ast.Name, ast.Tuple, ast.List)):
+                n.ctx = ast.Store()
+    return t
+
+
+def _load(t: ast.expr) -> ast.expr:
+    t = copy.deepcopy(t)
+    for n in ast.walk(t):
+        if isinstance(n, (ast.Name, ast.Tuple, ast.List)):
+            n.ctx = ast.Load()
+    return t
+
+
+class _Rewrite(ast.NodeTransformer):
+    """Steps a–d that look at one node."""
+
+    # ---- a
+    def visit_Expr(self, node):  # noqa: N802
+        self.generic_visit(node)
+        v = node.value
+        if isinstance(v, ast.Call) and _call_name(v).startswith("_logger."):
+            return None
+        if isinstance(v, ast.Constant):
+            return None
+        return node
+
+    def visit_Pass(self, node):  # noqa: N802
+        return None
+
+    def visit_Assert(self, node):  # noqa: N802
+        return None
+
+    def visit_AnnAssign(self, node):  # noqa: N802
+        if node.value is None:
+            return None
+        return self.visit(ast.copy_location(ast.Assign(targets=[node.target], value=node.value), node))
+
+    def visit_Raise(self, node):  # noqa: N802
+        self.generic_visit(node)
+        e = node.exc
+        if isinstance(e, ast.Call) and isinstance(e.func, ast.Name) and not e.keywords:
+            msg_only = all(isinstance(a, (ast.Constant, ast.JoinedStr)) for a in e.args)
+            if msg_only and all(not _reads(a, set()).impure for a in e.args):
+                node.exc = e.func
+        return node
+
+    # ---- b
+    def visit_Match(self, node):  # noqa: N802
+        self.generic_visit(node)
+        subj = node.subject
+        if not _simple(subj):
+            return node
+
+        def test_of(p: ast.pattern) -> ast.expr | None | bool:
+            if isinstance(p, ast.MatchAs) and p.pattern is None and p.name is None:
+                return True
+            if isinstance(p, ast.MatchClass) and not p.patterns and not p.kwd_patterns:
+                return ast.Call(func=_name("isinstance"), args=[copy.deepcopy(subj), p.cls], keywords=[])
+            if isinstance(p, ast.MatchValue):
+                return ast.Compare(left=copy.deepcopy(subj), ops=[ast.Eq()], comparators=[p.value])
+            if isinstance(p, ast.MatchSingleton):
+                return ast.Compare(left=copy.deepcopy(subj), ops=[ast.Is()], comparators=[ast.Constant(value=p.value)])
+            if isinstance(p, ast.MatchOr):
+                ts = [test_of(q) for q in p.patterns]
+                if any(t is None or t is True for t in ts):
+                    return None
+                return ast.BoolOp(op=ast.Or(), values=ts)
             return None
 
-        def visit_AnnAssign(self, node):  # noqa: N802
-            if node.value is None:
+        arms: list[tuple[ast.expr | None, list[ast.stmt]]] = []
+        for case in node.cases:
+            t = test_of(case.pattern)
+            if t is None:
+                return node
+            if t is True:
+                t = case.guard
+            elif case.guard is not None:
+                t = ast.BoolOp(op=ast.And(), values=[t, case.guard])
+            arms.append((t, case.body))
+            if t is None:
+                break                      # irrefutable: later cases are unreachable
+        result: list[ast.stmt] = []
+        for t, body in reversed(arms):
+            if t is None:
+                result = body
+            else:
+                result = [ast.If(test=t, body=body, orelse=result)]
+        return result if result else None
+
+    def visit_Assign(self, node):  # noqa: N802
+        self.generic_visit(node)
+        v = node.value
+        if isinstance(v, ast.IfExp):
+            return ast.If(test=v.test, body=[ast.Assign(targets=node.targets, value=v.body)],
+                          orelse=[ast.Assign(targets=copy.deepcopy(node.targets), value=v.orelse)])
+        if len(node.targets) == 1:
+            t = node.targets[0]
+            if (isinstance(t, ast.Tuple) and isinstance(v, ast.Tuple) and len(t.elts) == len(v.elts)
+                    and all(isinstance(x, ast.Name) for x in t.elts)):
+                ids = [x.id for x in t.elts]
+                reads = [{n.id for n in ast.walk(x) if isinstance(n, ast.Name)} for x in v.elts]
+                if len(set(ids)) == len(ids) and all(not (set(ids[:j]) & reads[j]) for j in range(len(ids))):
+                    return [ast.Assign(targets=[x], value=y) for x, y in zip(t.elts, v.elts)]
+            if (isinstance(t, ast.Name) and isinstance(v, ast.BinOp) and isinstance(v.op, (ast.Add, ast.Sub))
+                    and isinstance(v.left, ast.Name) and v.left.id == t.id
+                    and isinstance(v.right, ast.Constant) and isinstance(v.right.value, int)):
+                return ast.AugAssign(target=t, op=v.op, value=v.right)
+        return node
+
+    def visit_Return(self, node):  # noqa: N802
+        self.generic_visit(node)
+        v = node.value
+        if isinstance(v, ast.Constant) and v.value is None:
+            node.value = None
+        elif isinstance(v, ast.IfExp):
+            return ast.If(test=v.test, body=[ast.Return(value=v.body)], orelse=[ast.Return(value=v.orelse)])
+        return node
+
+    # ---- c
+    def visit_UnaryOp(self, node):  # noqa: N802
+        self.generic_visit(node)
+        if isinstance(node.op, ast.Not):
+            inner = node.operand
+            if isinstance(inner, ast.UnaryOp) and isinstance(inner.op, ast.Not):
+                return inner.operand
+            if isinstance(inner, ast.BoolOp) or (isinstance(inner, ast.Compare) and len(inner.ops) == 1):
+                return self.visit(negate(inner))
+        return node
+
+    def visit_Compare(self, node):  # noqa: N802
+        self.generic_visit(node)
+        if len(node.ops) > 1 and all(_simple(c) for c in node.comparators[:-1]):
+            parts, left = [], node.left
+            for op, right in zip(node.ops, node.comparators):
+                parts.append(ast.Compare(left=copy.deepcopy(left), ops=[op], comparators=[right]))
+                left = right
+            return ast.BoolOp(op=ast.And(), values=parts)
+        return node
+
+    def visit_BoolOp(self, node):  # noqa: N802
+        self.generic_visit(node)
+        vals: list[ast.expr] = []
+        for v in node.values:
+            vals += v.values if isinstance(v, ast.BoolOp) and type(v.op) is type(node.op) else [v]
+        node.values = vals
+        return node
+
+    # ---- d
+    def visit_Call(self, node):  # noqa: N802
+        self.generic_visit(node)
+        f = _call_name(node)
+        if f in ("map", "filter") and len(node.args) == 2 and not node.keywords and isinstance(node.args[0], ast.Lambda):
+            lam, it = node.args
+            a = lam.args
+            if len(a.args) == 1 and not (a.vararg or a.kwarg or a.kwonlyargs or a.posonlyargs or a.defaults):
+                x = a.args[0].arg
+                if f == "map":
+                    return self._gen(_genexp(lam.body, _name(x, ast.Store()), it, []))
+                return self._gen(_genexp(_name(x), _name(x, ast.Store()), it, [lam.body]))
+        if f == "sum" and len(node.args) == 2 and isinstance(node.args[1], ast.Constant) and node.args[1].value == 0 \
+                and not node.keywords:
+            node.args = node.args[:1]
+        # a list comprehension that is consumed at once is a generator
+        if f in ("sum", "any", "all", "min", "max", "sorted") and len(node.args) == 1 and isinstance(node.args[0], ast.ListComp):
+            node.args[0] = ast.GeneratorExp(elt=node.args[0].elt, generators=node.args[0].generators)
+        return node
+
+    def visit_GeneratorExp(self, node):  # noqa: N802
+        self.generic_visit(node)
+        return self._gen(node)
+
+    def _gen(self, g: ast.GeneratorExp) -> ast.GeneratorExp:
+        if len(g.generators) != 1:
+            return g
+        c = g.generators[0]
+        # (E for x in (y for y in it if P))  ==  (E[x:=y] for y in it if P)
+        inner = c.iter
+        if (isinstance(inner, ast.GeneratorExp) and len(inner.generators) == 1 and isinstance(c.target, ast.Name)):
+            ic = inner.generators[0]
+            bound = {n.id for n in ast.walk(ic.target) if isinstance(n, ast.Name)}
+            used = {n.id for n in ast.walk(g.elt) if isinstance(n, ast.Name)} | \
+                   {n.id for t in c.ifs for n in ast.walk(t) if isinstance(n, ast.Name)}
+            if not (bound & (used - {c.target.id})):
+                m = {c.target.id: inner.elt}
+                g = _genexp(_subst(g.elt, m), ic.target, ic.iter, ic.ifs + [_subst(t, m) for t in c.ifs])
+                c = g.generators[0]
+        # (… e[0] … e[1] … for e in enumerate(X))  ==  (… i … v … for i, v in enumerate(X))
+        if isinstance(c.target, ast.Name) and isinstance(c.iter, ast.Call) and _call_name(c.iter) == "enumerate" \
+                and len(c.iter.args) == 1 and not c.iter.keywords:
+            e = c.target.id
+            fresh = (f"{e}_0", f"{e}_1")
+            ok = True
+
+            class P(ast.NodeTransformer):
+                def visit_Subscript(self, n):  # noqa: N802
+                    nonlocal ok
+                    if isinstance(n.value, ast.Name) and n.value.id == e:
+                        if isinstance(n.slice, ast.Constant) and n.slice.value in (0, 1) and isinstance(n.ctx, ast.Load):
+                            return _name(fresh[n.slice.value])
+                        ok = False
+                    return self.generic_visit(n)
+
+                def visit_Name(self, n):  # noqa: N802
+                    if n.id == e and isinstance(n.ctx, ast.Load):
+                        return ast.Tuple(elts=[_name(fresh[0]), _name(fresh[1])], ctx=ast.Load())
+                    return n
+
+            all_names = {n.id for n in ast.walk(g) if isinstance(n, ast.Name)}
+            if not (set(fresh) & all_names):
+                elt = P().visit(copy.deepcopy(g.elt))
+                ifs = [P().visit(copy.deepcopy(t)) for t in c.ifs]
+                if ok:
+                    tgt = ast.Tuple(elts=[_name(fresh[0], ast.Store()), _name(fresh[1], ast.Store())], ctx=ast.Store())
+                    g = _genexp(elt, tgt, c.iter, ifs)
+        return g
+
+
+# ----------------------------------------------------------------------------- step d: loops that are comprehensions
+def _mentions(node: ast.AST | list, ids: set[str]) -> bool:
+    nodes = node if isinstance(node, list) else [node]
+    return any(isinstance(n, ast.Name) and n.id in ids for x in nodes for n in ast.walk(x))
+
+
+def _target_names(t: ast.expr) -> set[str] | None:
+    if isinstance(t, ast.Name):
+        return {t.id}
+    if isinstance(t, ast.Tuple):
+        out: set[str] = set()
+        for e in t.elts:
+            s = _target_names(e)
+            if s is None:
                 return None
-            return ast.copy_location(ast.Assign(targets=[node.target], value=node.value), node)
+            out |= s
+        return out
+    return None
 
-        def visit_UnaryOp(self, node):  # noqa: N802
+
+def _take_init(out: list[ast.stmt], var: str) -> ast.expr | None:
+    """Remove and return the constant initialisation `var = <const>` that precedes a loop (statements in between must
+    not mention `var`)."""
+    for k in range(len(out) - 1, -1, -1):
+        s = out[k]
+        if (isinstance(s, ast.Assign) and len(s.targets) == 1 and isinstance(s.targets[0], ast.Name)
+                and s.targets[0].id == var):
+            v = s.value
+            if isinstance(v, ast.Constant) or (isinstance(v, ast.UnaryOp) and isinstance(v.operand, ast.Constant)):
+                del out[k]
+                return v
+            return None
+        if _mentions(s, {var}) or isinstance(s, (ast.For, ast.While, ast.Try, ast.With, ast.FunctionDef)):
+            return None
+    return None
+
+
+def _loop_as_comprehension(loop: ast.For, out: list[ast.stmt], rest: list[ast.stmt], outside_uses) -> list[ast.stmt] | None:
+    """`out`: the statements before the loop (an initialisation is removed from it on success); `rest`: the statements
+    after it (a consumed `return` is removed).  Returns the replacement of the loop, or None."""
+    tn = _target_names(loop.target)
+    if tn is None or len(loop.body) != 1 or outside_uses(tn):
+        return None
+    b = loop.body[0]
+    cond: list[ast.expr] = []
+    inner = [b]
+    if isinstance(b, ast.If) and not b.orelse:
+        cond, inner = [b.test], b.body
+    tgt = _store(loop.target)
+    # any / all
+    if (cond and len(inner) == 1 and isinstance(inner[0], ast.Return) and isinstance(inner[0].value, ast.Constant)
+            and isinstance(inner[0].value.value, bool) and not loop.orelse and rest and isinstance(rest[0], ast.Return)
+            and isinstance(rest[0].value, ast.Constant) and rest[0].value.value is (not inner[0].value.value)):
+        if inner[0].value.value:
+            call = ast.Call(func=_name("any"), args=[_genexp(cond[0], tgt, loop.iter, [])], keywords=[])
+        else:
+            call = ast.Call(func=_name("all"), args=[_genexp(negate(cond[0]), tgt, loop.iter, [])], keywords=[])
+        del rest[0]
+        return [ast.Return(value=call)]
+    # find:  for …: if P: return V   + `return D`        ==  return next((V for … if P), D)
+    if (cond and len(inner) == 1 and isinstance(inner[0], ast.Return) and inner[0].value is not None and not loop.orelse
+            and rest and isinstance(rest[0], ast.Return) and rest[0].value is not None
+            and all(_simple(x) for x in (rest[0].value.elts if isinstance(rest[0].value, ast.Tuple) else [rest[0].value]))):
+        call = ast.Call(func=_name("next"), args=[_genexp(inner[0].value, tgt, loop.iter, cond), rest[0].value], keywords=[])
+        del rest[0]
+        return [ast.Return(value=call)]
+    # sum
+    if len(inner) == 1 and not loop.orelse:
+        a = inner[0]
+        acc, val = None, None
+        if isinstance(a, ast.AugAssign) and isinstance(a.op, ast.Add) and isinstance(a.target, ast.Name):
+            acc, val = a.target.id, a.value
+        elif (isinstance(a, ast.Assign) and len(a.targets) == 1 and isinstance(a.targets[0], ast.Name)
+              and isinstance(a.value, ast.BinOp) and isinstance(a.value.op, ast.Add)
+              and isinstance(a.value.left, ast.Name) and a.value.left.id == a.targets[0].id):
+            acc, val = a.targets[0].id, a.value.right
+        if acc is not None and acc not in tn and not _mentions([val] + cond + [loop.iter], {acc}):
+            init = _take_init(out, acc)
+            if isinstance(init, ast.Constant) and isinstance(init.value, int) and not isinstance(init.value, bool):
+                call: ast.expr = ast.Call(func=_name("sum"), args=[_genexp(val, tgt, loop.iter, cond)], keywords=[])
+                if init.value != 0:
+                    call = ast.BinOp(left=init, op=ast.Add(), right=call)
+                return [ast.Assign(targets=[_name(acc, ast.Store())], value=call)]
+            if init is not None:
+                out.append(ast.Assign(targets=[_name(acc, ast.Store())], value=init))   # put it back
+    # search:  v = D; for …: if P: v = V; break        (or `else: v = D` on the loop)
+    if cond and len(inner) >= 2 and isinstance(inner[-1], ast.Break):
+        assigns = inner[:-1]
+        if all(isinstance(x, ast.Assign) and len(x.targets) == 1 and isinstance(x.targets[0], ast.Name) for x in assigns):
+            vs = [x.targets[0].id for x in assigns]  # type: ignore[attr-defined]
+            vals = [x.value for x in assigns]  # type: ignore[attr-defined]
+            if len(set(vs)) == len(vs) and not (set(vs) & tn) and not _mentions(vals + cond + [loop.iter], set(vs)):
+                defaults: list[ast.expr] | None = []
+                if loop.orelse:
+                    if (len(loop.orelse) == len(vs) and all(
+                            isinstance(x, ast.Assign) and len(x.targets) == 1 and isinstance(x.targets[0], ast.Name)
+                            and _simple(x.value) for x in loop.orelse)
+                            and sorted(x.targets[0].id for x in loop.orelse) == sorted(vs)):  # type: ignore[attr-defined]
+                        by = {x.targets[0].id: x.value for x in loop.orelse}  # type: ignore[attr-defined]
+                        defaults = [by[v] for v in vs]
+                    else:
+                        defaults = None
+                else:
+                    taken: list[tuple[str, ast.expr]] = []
+                    for v in vs:
+                        d = _take_init(out, v)
+                        if d is None:
+                            for w, dv in taken:        # put back what was taken
+                                out.append(ast.Assign(targets=[_name(w, ast.Store())], value=dv))
+                            defaults = None
+                            break
+                        taken.append((v, d))
+                        defaults.append(d)
+                if defaults is not None:
+                    if len(vs) == 1:
+                        elt, dflt, target = vals[0], defaults[0], _name(vs[0], ast.Store())
+                    else:
+                        elt = ast.Tuple(elts=vals, ctx=ast.Load())
+                        dflt = ast.Tuple(elts=defaults, ctx=ast.Load())
+                        target = ast.Tuple(elts=[_name(v, ast.Store()) for v in vs], ctx=ast.Store())
+                    call = ast.Call(func=_name("next"), args=[_genexp(elt, tgt, loop.iter, cond), dflt], keywords=[])
+                    return [ast.Assign(targets=[target], value=call)]
+    return None
+
+
+# ----------------------------------------------------------------------------- step e: private helpers
+class _Scope:
+    """Where the normalised method lives: its class (for `self._helper(…)`) and module (for `_helper(…)`)."""
+
+    def __init__(self, tree: ast.Module | None, cls: ast.ClassDef | None):
+        self.tree, self.cls = tree, cls
+        self.final = final_attrs(tree) if tree is not None else set()
+        self.counter = itertools.count()
+
+    def helper(self, call: ast.Call) -> tuple[ast.FunctionDef, bool] | None:
+        f = call.func
+        if isinstance(f, ast.Attribute) and isinstance(f.value, ast.Name) and f.value.id == "self" and self.cls is not None:
+            name, pool, method = f.attr, self.cls.body, True
+        elif isinstance(f, ast.Name) and self.tree is not None:
+            name, pool, method = f.id, self.tree.body, False
+        else:
+            return None
+        if not name.startswith("_") or name.startswith("__") or name in MODELLED_PRIVATE:
+            return None
+        found = [x for x in pool if isinstance(x, ast.FunctionDef) and x.name == name]
+        if len(found) != 1:
+            return None
+        fn = found[0]
+        decos = {ast.unparse(d) for d in fn.decorator_list}
+        if decos - {"staticmethod"}:
+            return None
+        return fn, method and "staticmethod" not in decos
+
+
+def _bind_args(fn: ast.FunctionDef, call: ast.Call, has_self: bool) -> list[tuple[str, ast.expr]] | None:
+    a = fn.args
+    if a.vararg or a.kwarg or a.posonlyargs:
+        return None
+    params = [x.arg for x in a.args]
+    if has_self:
+        if not params:
+            return None
+        params = params[1:]
+    defaults: dict[str, ast.expr] = {}
+    for p, d in zip(reversed(params), reversed(a.defaults)):
+        defaults[p] = d
+    for p, d in zip(a.kwonlyargs, a.kw_defaults):
+        if d is not None:
+            defaults[p.arg] = d
+    allp = params + [x.arg for x in a.kwonlyargs]
+    given: dict[str, ast.expr] = {}
+    if len(call.args) > len(params) or any(isinstance(x, ast.Starred) for x in call.args):
+        return None
+    for p, x in zip(params, call.args):
+        given[p] = x
+    for k in call.keywords:
+        if k.arg is None or k.arg not in allp or k.arg in given:
+            return None
+        given[k.arg] = k.value
+    out = []
+    for p in allp:
+        if p in given:
+            out.append((p, given[p]))
+        elif p in defaults and isinstance(defaults[p], ast.Constant):
+            out.append((p, defaults[p]))
+        else:
+            return None
+    return out
+
+
+def _inline_helpers(stmts: list[ast.stmt], scope: _Scope, depth: int) -> list[ast.stmt]:
+    """Replace calls of un-modelled private helpers by their bodies (statement level: `return h(…)`, `x = h(…)`,
+    `h(…)`; expression level: helpers that are a single `return E` called with simple arguments)."""
+    if depth > 3:
+        return stmts
+
+    def body_of(call: ast.Call) -> tuple[list[ast.stmt], list[ast.stmt]] | None:
+        """(parameter bindings, normalised body) with all locals of the helper renamed apart."""
+        h = scope.helper(call)
+        if h is None:
+            return None
+        fn, has_self = h
+        binds = _bind_args(fn, call, has_self)
+        if binds is None:
+            return None
+        k = next(scope.counter)
+        norm = normalize(fn, scope, depth + 1)
+        local = set(_bound_names(norm)) - {"self"}
+        ren = {v: f"_{fn.name.strip('_')}{k}_{v}" for v in local}
+        norm = _rename(norm, ren)
+        pre = [ast.Assign(targets=[_name(ren.get(p, p), ast.Store())], value=copy.deepcopy(x)) for p, x in binds]
+        return pre, norm.body
+
+    class ExprInline(ast.NodeTransformer):
+        def visit_Call(self, node):  # noqa: N802
             self.generic_visit(node)
-            if isinstance(node.op, ast.Not):
-                inner = node.operand
-                if isinstance(inner, ast.UnaryOp) and isinstance(inner.op, ast.Not):
-                    return inner.operand
-                if isinstance(inner, ast.BoolOp):
-                    dual = ast.Or() if isinstance(inner.op, ast.And) else ast.And()
-                    return self.visit(ast.BoolOp(op=dual, values=[ast.UnaryOp(op=ast.Not(), operand=v) for v in inner.values]))
+            h = scope.helper(node)
+            if h is None:
+                return node
+            fn, has_self = h
+            binds = _bind_args(fn, node, has_self)
+            if binds is None or not all(_simple(x) for _, x in binds):
+                return node
+            norm = normalize(fn, scope, depth + 1)
+            if len(norm.body) == 1 and isinstance(norm.body[0], ast.Return) and norm.body[0].value is not None:
+                assigned = _stores(norm.body)
+                if not assigned & {p for p, _ in binds}:
+                    return _subst(norm.body[0].value, dict(binds))
             return node
 
-        def visit_Assign(self, node):  # noqa: N802
-            self.generic_visit(node)
-            if isinstance(node.value, ast.IfExp):
-                e = node.value
-                return ast.If(test=e.test, body=[ast.Assign(targets=node.targets, value=e.body)],
-                              orelse=[ast.Assign(targets=node.targets, value=e.orelse)])
-            return node
+    out: list[ast.stmt] = []
+    for s in stmts:
+        for field in ("body", "orelse", "finalbody"):
+            if isinstance(getattr(s, field, None), list) and not isinstance(s, (ast.FunctionDef, ast.ClassDef)):
+                setattr(s, field, _inline_helpers(getattr(s, field), scope, depth))
+        if isinstance(s, ast.Try):
+            for hd in s.handlers:
+                hd.body = _inline_helpers(hd.body, scope, depth)
+        s = ExprInline().visit(s)
+        call = None
+        if isinstance(s, (ast.Return, ast.Assign, ast.Expr)) and isinstance(s.value, ast.Call):
+            call = s.value
+        got = body_of(call) if call is not None else None
+        if got is not None:
+            pre, body = got
+            if isinstance(s, ast.Return) and _always_ends(body):
+                out += pre + body
+                continue
+            returns = [n for x in body for n in ast.walk(x) if isinstance(n, ast.Return)]
+            if isinstance(s, ast.Assign) and body and isinstance(body[-1], ast.Return) and body[-1].value is not None \
+                    and returns == [body[-1]]:
+                out += pre + body[:-1] + [ast.Assign(targets=s.targets, value=body[-1].value)]
+                continue
+            if isinstance(s, ast.Expr) and not returns:
+                out += pre + body
+                continue
+        out.append(s)
+    return out
 
-        def visit_Lambda(self, node):  # noqa: N802
-            self.generic_visit(node)
-            ren = {a.arg: f"_lam{i}" for i, a in enumerate(node.args.args)}
-            for n in ast.walk(node):
-                if isinstance(n, ast.Name) and n.id in ren:
-                    n.id = ren[n.id]
-                elif isinstance(n, ast.arg) and n.arg in ren:
-                    n.arg = ren[n.arg]
-            return node
 
-    fn = ast.fix_missing_locations(Drop().visit(fn))
+# ----------------------------------------------------------------------------- names
+def _bound_names(fn: ast.FunctionDef) -> list[str]:
+    """Local names of `fn` in order of first binding: parameters, assignment / loop / comprehension / lambda targets."""
+    seen: list[str] = []
+
+    def add(name: str) -> None:
+        if name not in seen:
+            seen.append(name)
+
+    class V(ast.NodeVisitor):
+        def visit_arg(self, node):  # noqa: N802
+            add(node.arg)
+
+        def visit_Name(self, node):  # noqa: N802
+            if isinstance(node.ctx, (ast.Store, ast.Del)):
+                add(node.id)
+
+    V().visit(fn)
+    return seen
+
+
+def _rename(node, mapping: dict[str, str]):
+    cp = copy.deepcopy(node)
+    for n in ast.walk(cp):
+        if isinstance(n, ast.Name) and n.id in mapping:
+            n.id = mapping[n.id]
+        elif isinstance(n, ast.arg) and n.arg in mapping:
+            n.arg = mapping[n.arg]
+    return cp
+
+
+def _alpha(fn: ast.FunctionDef, prefix: str) -> None:
+    """Rename the variables bound by comprehensions and lambdas apart (`<prefix>c0`, `<prefix>l1`, … in pre-order), in
+    place: they live in scopes of their own, so that their names are free."""
+    counter = itertools.count()
+
+    def rename(nodes: list, mapping: dict[str, str]) -> None:
+        for root in nodes:
+            for n in ast.walk(root):
+                if isinstance(n, ast.Name) and n.id in mapping:
+                    n.id = mapping[n.id]
+                elif isinstance(n, ast.arg) and n.arg in mapping:
+                    n.arg = mapping[n.arg]
+
+    def visit(node: ast.AST) -> None:
+        if isinstance(node, (ast.GeneratorExp, ast.ListComp, ast.SetComp, ast.DictComp)):
+            bound = [n.id for g in node.generators for n in ast.walk(g.target) if isinstance(n, ast.Name)]
+            mapping = {b: f"{prefix}c{next(counter)}" for b in dict.fromkeys(bound)}
+            inside: list = [node.key, node.value] if isinstance(node, ast.DictComp) else [node.elt]
+            for j, g in enumerate(node.generators):
+                inside += [g.target] + g.ifs + ([g.iter] if j else [])
+            rename(inside, mapping)
+        elif isinstance(node, ast.Lambda):
+            a = node.args
+            bound = [x.arg for x in a.posonlyargs + a.args + a.kwonlyargs] + [x.arg for x in (a.vararg, a.kwarg) if x]
+            mapping = {b: f"{prefix}l{next(counter)}" for b in bound}
+            rename([node.args, node.body], mapping)
+        for c in ast.iter_child_nodes(node):
+            visit(c)
+
+    for s in fn.body:
+        visit(s)
+
+
+# ----------------------------------------------------------------------------- step i: locals that are just names
+def _blocks(stmts: list[ast.stmt], in_loop: bool = False):
+    """All statement lists of a function body, with whether they are inside a loop."""
+    yield stmts, in_loop
+    for s in stmts:
+        if isinstance(s, (ast.FunctionDef, ast.ClassDef)):
+            continue
+        inner = in_loop or isinstance(s, (ast.For, ast.While))
+        for field in ("body", "orelse", "finalbody"):
+            sub = getattr(s, field, None)
+            if isinstance(sub, list):
+                yield from _blocks(sub, inner)
+        if isinstance(s, ast.Try):
+            for h in s.handlers:
+                yield from _blocks(h.body, inner)
+
+
+def _uses_in(node, v: str) -> list[ast.Name]:
+    nodes = node if isinstance(node, list) else [node]
+    return [n for x in nodes for n in ast.walk(x) if isinstance(n, ast.Name) and n.id == v and isinstance(n.ctx, ast.Load)]
+
+
+def _stores_in(node, v: str) -> int:
+    nodes = node if isinstance(node, list) else [node]
+    k = 0
+    for x in nodes:
+        for n in ast.walk(x):
+            if isinstance(n, ast.Name) and n.id == v and isinstance(n.ctx, (ast.Store, ast.Del)):
+                k += 1
+            elif isinstance(n, ast.AugAssign) and isinstance(n.target, ast.Name) and n.target.id == v:
+                k += 1
+    return k
+
+
+def _leaves_function(stmts: list[ast.stmt]) -> bool:
+    """Every path through the block ends in `return` / `raise`."""
+    if not stmts:
+        return False
+    s = stmts[-1]
+    if isinstance(s, (ast.Return, ast.Raise)):
+        return True
+    return isinstance(s, ast.If) and _leaves_function(s.body) and _leaves_function(s.orelse)
+
+
+def _split_definitions(fn: ast.FunctionDef) -> bool:
+    """`v = E1; …; v = E2` in one block (nothing in between assigns `v` or jumps): the first definition and its uses get
+    a name of their own, so that step i can treat it like any other local.  One round, in place."""
+    taken = set(_bound_names(fn)) | {n.id for n in ast.walk(fn) if isinstance(n, ast.Name)}
+    for block, _ in _blocks(fn.body):
+        for i, s in enumerate(block):
+            if not (isinstance(s, ast.Assign) and len(s.targets) == 1 and isinstance(s.targets[0], ast.Name)):
+                continue
+            v = s.targets[0].id
+            if _uses_in(s.value, v):
+                continue                     # (its own right-hand side reads an earlier definition: handled from there)
+            for j in range(i + 1, len(block)):
+                t = block[j]
+                if isinstance(t, ast.Assign) and len(t.targets) == 1 and isinstance(t.targets[0], ast.Name) \
+                        and t.targets[0].id == v:
+                    between = block[i + 1:j]
+                    k = 0
+                    while f"{v}__{k}" in taken:
+                        k += 1
+                    fresh = f"{v}__{k}"
+                    s.targets[0].id = fresh
+                    for n in [n for x in between for n in ast.walk(x)] + list(ast.walk(t.value)):
+                        if isinstance(n, ast.Name) and n.id == v:
+                            n.id = fresh
+                    return True
+                if _stores_in(t, v) or any(isinstance(n, (ast.Continue, ast.Break, ast.Lambda, ast.FunctionDef))
+                                           for n in ast.walk(t)):
+                    break
+    return False
+
+
+def _inline_locals(fn: ast.FunctionDef, final: set[str]) -> bool:
+    """One round of step i (in place).  Returns whether something changed."""
+    params = {a.arg for a in fn.args.args + fn.args.kwonlyargs + fn.args.posonlyargs}
+    for n in ast.walk(fn):
+        if isinstance(n, (ast.Global, ast.Nonlocal)):
+            return False
+
+    def in_lambda(root: ast.AST, v: str) -> bool:
+        return any(isinstance(n, (ast.Lambda, ast.FunctionDef)) and _uses_in(n, v) for n in ast.walk(root))
+
+    def effects_before_use(x: ast.stmt, v: str) -> _Eff:
+        """What a statement that uses `v` may change BEFORE the (last) use of `v` in it is evaluated."""
+        if isinstance(x, (ast.Assign, ast.Return, ast.Expr)) and x.value is not None and _uses_in(x.value, v) \
+                and not (isinstance(x, ast.Assign) and _uses_in(x.targets, v)):
+            val = x.value
+            # the outermost call runs after its arguments; the targets are assigned after the value is computed
+            outer = val if isinstance(val, ast.Call) and not _uses_in(val.func, v) else None
+            w = _Eff()
+            for n in ast.walk(val):
+                if isinstance(n, ast.Call) and n is not outer and not _is_pure_call(n):
+                    w.state = w.impure = True
+                elif isinstance(n, (ast.Await, ast.Yield, ast.YieldFrom, ast.NamedExpr)):
+                    w.state = w.impure = True
+            return w
+        if isinstance(x, ast.If):
+            # uses in the tests of an if / elif chain only: the tests run before any of the branches
+            tests, cur = [], x
+            while True:
+                tests.append(cur.test)
+                if len(cur.orelse) == 1 and isinstance(cur.orelse[0], ast.If):
+                    cur = cur.orelse[0]
+                else:
+                    break
+            if len(_uses_in(tests, v)) == len(_uses_in(x, v)):
+                w = _Eff()
+                for t in tests:
+                    for n in ast.walk(t):
+                        if (isinstance(n, ast.Call) and not _is_pure_call(n)) or \
+                                isinstance(n, (ast.Await, ast.Yield, ast.YieldFrom, ast.NamedExpr)):
+                            w.state = w.impure = True
+                return w
+        return _writes(x, final)
+
+    def merge(a: _Eff, b: _Eff) -> None:
+        a.names |= b.names
+        a.attrs |= b.attrs
+        a.attr_roots |= b.attr_roots
+        a.state = a.state or b.state
+        a.impure = a.impure or b.impure
+
+    def before_first_use(stmts: list[ast.stmt], v: str) -> _Eff:
+        """What may have happened, along a path through `stmts`, when `v` is evaluated for the first time."""
+        acc = _Eff()
+        for k, x in enumerate(stmts):
+            if not _uses_in(stmts[k:], v):
+                break                         # no evaluation of `v` from here on
+            if not _uses_in(x, v):
+                merge(acc, _writes(x, final))
+                continue
+            if isinstance(x, ast.If):
+                if not _uses_in(x.test, v):
+                    merge(acc, _writes(ast.Expr(value=x.test), final))
+                    goes_on = bool(_uses_in(stmts[k + 1:], v))
+                    for br in (x.body, x.orelse):
+                        if _uses_in(br, v):
+                            merge(acc, before_first_use(br, v))
+                        elif goes_on:         # a path through a branch without a use reaches the later ones
+                            merge(acc, _writes(ast.If(test=ast.Constant(value=True), body=br or [ast.Pass()],
+                                                      orelse=[]), final))
+                    continue
+                return acc
+            merge(acc, effects_before_use(x, v))
+            return acc
+        return acc
+
+    for block, in_loop in _blocks(fn.body):
+        for i, s in enumerate(block):
+            if not (isinstance(s, ast.Assign) and len(s.targets) == 1 and isinstance(s.targets[0], ast.Name)):
+                continue
+            v = s.targets[0].id
+            if v in params:
+                continue
+            e = s.value
+            r = _reads(e, final)
+            if r.impure or v in r.names:
+                continue
+            later = block[i + 1:]
+            n_later = len(_uses_in(later, v))
+            if n_later == 0 or _stores_in(later, v):
+                continue
+            # this must be the only definition that reaches the uses, and it must reach nothing else:
+            # either the only assignment of `v` with all uses behind it, or a block that leaves the function
+            unique = _stores_in(fn, v) == 1 and len(_uses_in(fn, v)) == n_later
+            if not unique and not (not in_loop and _leaves_function(later)):
+                continue
+            has_call = any(isinstance(n, ast.Call) for n in ast.walk(e))
+            if n_later > 1 and has_call and not all(_call_name(n) in STATELESS_CALLS
+                                                   for n in ast.walk(e) if isinstance(n, ast.Call)):
+                continue
+            if any(in_lambda(x, v) for x in later):
+                continue
+            idx = [k for k, x in enumerate(later) if _uses_in(x, v)]
+            region = later[:idx[-1] + 1]
+            ok = True
+            for k, x in enumerate(region):
+                w = effects_before_use(x, v) if k == idx[-1] else _writes(x, final)
+                if _interferes(w, r):
+                    ok = False
+                    break
+            if ok and not _total(e):
+                # an expression that may raise is evaluated for the first time where it used to be, as far as side
+                # effects can tell (later evaluations repeat the first one)
+                w1 = before_first_use(later, v)
+                ok = not (w1.attrs or w1.state or w1.impure)
+            if not ok:
+                continue
+            for x in later:
+                for n in ast.walk(x):
+                    for field, old in ast.iter_fields(n):
+                        if isinstance(old, ast.Name) and old.id == v and isinstance(old.ctx, ast.Load):
+                            setattr(n, field, copy.deepcopy(e))
+                        elif isinstance(old, list):
+                            for j, y in enumerate(old):
+                                if isinstance(y, ast.Name) and y.id == v and isinstance(y.ctx, ast.Load):
+                                    old[j] = copy.deepcopy(e)
+            del block[i]
+            return True
+    return False
+
+
+# ----------------------------------------------------------------------------- the normal form
+def _strip(fn: ast.FunctionDef) -> ast.FunctionDef:
+    fn = copy.deepcopy(fn)
+    fn.decorator_list = []
+    fn.returns = None
+    for a in fn.args.args + fn.args.kwonlyargs + fn.args.posonlyargs:
+        a.annotation = None
+    return fn
+
+
+def normalize(fn: ast.FunctionDef, scope: _Scope | None = None, depth: int = 0) -> ast.FunctionDef:
+    scope = scope or _Scope(None, None)
+    fn = _strip(fn)
     params = [a.arg for a in fn.args.args + fn.args.kwonlyargs if a.arg != "self"]
-    local = set(_bindings(fn)) - set(params)
 
-    def key(s: ast.stmt) -> str:
-        cp = copy.deepcopy(s)
-        for n in ast.walk(cp):
-            if isinstance(n, ast.Name):
-                if n.id in params:
-                    n.id = f"_p{params.index(n.id)}"
-                elif n.id in local:
-                    n.id = "_"
-        return ast.unparse(cp)
+    def key_fn():
+        local = set(_bound_names(fn)) - set(params)
 
-    def block(stmts: list[ast.stmt]) -> list[ast.stmt]:
-        stmts = _merge_ifs(stmts)
+        def key(s: ast.stmt) -> str:
+            cp = copy.deepcopy(s)
+            for n in ast.walk(cp):
+                if isinstance(n, ast.Name):
+                    if n.id in params:
+                        n.id = f"_p{params.index(n.id)}"
+                    elif n.id in local:
+                        n.id = "_"
+            return ast.unparse(ast.fix_missing_locations(cp))
+        return key
+
+    def flag_params() -> list[str]:
+        """Parameters that are never assigned and occur as a condition (`p`, `not p`, an operand of `and`/`or`) of an `if`."""
+        used: set[str] = set()
+
+        def lits(t: ast.expr) -> None:
+            if isinstance(t, ast.Name):
+                used.add(t.id)
+            elif isinstance(t, ast.UnaryOp) and isinstance(t.op, ast.Not):
+                lits(t.operand)
+            elif isinstance(t, ast.BoolOp):
+                for v in t.values:
+                    lits(v)
+
+        for n in ast.walk(fn):
+            if isinstance(n, ast.If):
+                lits(n.test)
+        return [q for q in params if q in used and _stores_in(fn, q) == 0]
+
+    def local_names() -> set[str]:
+        return set(_bound_names(fn)) - {"self"}
+
+    def mark_leaks() -> None:
+        """`loop._leaks`: are the loop variables of a `for` used outside of it?  (computed on the whole function
+        before the blocks are rearranged; the mark survives the copies made there)"""
+        for loop in ast.walk(fn):
+            if isinstance(loop, ast.For):
+                names = _target_names(loop.target)
+                if names is None:
+                    loop._leaks = True  # type: ignore[attr-defined]
+                    continue
+                inside = sum(1 for n in ast.walk(loop) if isinstance(n, ast.Name) and n.id in names)
+                total = sum(1 for n in ast.walk(fn) if isinstance(n, ast.Name) and n.id in names)
+                loop._leaks = total != inside  # type: ignore[attr-defined]
+
+    def outside_uses_of(loop: ast.For):
+        return lambda names: getattr(loop, "_leaks", True)
+
+    def stable_names() -> set[str]:
+        """Locals whose value never changes once they exist: parameters that are never assigned, and names assigned
+        exactly once, by a statement of the function's top-level block."""
+        count: dict[str, int] = {}
+        for n in ast.walk(fn):
+            if isinstance(n, ast.Name) and isinstance(n.ctx, (ast.Store, ast.Del)):
+                count[n.id] = count.get(n.id, 0) + 1
+            elif isinstance(n, ast.AugAssign) and isinstance(n.target, ast.Name):
+                count[n.target.id] = count.get(n.target.id, 0) + 1
+        top = {t.id for x in fn.body if isinstance(x, ast.Assign) for t in x.targets if isinstance(t, ast.Name)}
+        return {p for p in params if count.get(p, 0) == 0} | {v for v in top if count.get(v, 0) == 1}
+
+    def with_facts(test: ast.expr, known: dict[str, bool]) -> ast.expr:
+        """`test` simplified with what the enclosing `if`s say about stable boolean locals."""
+        if isinstance(test, ast.Name) and test.id in known:
+            return ast.Constant(value=known[test.id])
+        if isinstance(test, ast.UnaryOp) and isinstance(test.op, ast.Not):
+            inner = with_facts(test.operand, known)
+            if isinstance(inner, ast.Constant) and isinstance(inner.value, bool):
+                return ast.Constant(value=not inner.value)
+            return ast.UnaryOp(op=ast.Not(), operand=inner)
+        if isinstance(test, ast.BoolOp):
+            is_and = isinstance(test.op, ast.And)
+            vals = []
+            for v in test.values:
+                w = with_facts(v, known)
+                if isinstance(w, ast.Constant) and isinstance(w.value, bool):
+                    if w.value is (not is_and):
+                        # `… and False` / `… or True`: what comes before still runs — unless it cannot matter
+                        if all(_total(x) for x in vals):
+                            return ast.Constant(value=w.value)
+                        vals.append(w)
+                        break
+                    continue
+                vals.append(w)
+            if not vals:
+                return ast.Constant(value=is_and)
+            return vals[0] if len(vals) == 1 else ast.BoolOp(op=test.op, values=vals)
+        return test
+
+    def facts_of(test: ast.expr, stable: set[str]) -> tuple[dict[str, bool], dict[str, bool]]:
+        """(what holds in the body, what holds in the else branch) about stable names."""
+        def lit(t: ast.expr):
+            if isinstance(t, ast.Name) and t.id in stable:
+                return t.id, True
+            if isinstance(t, ast.UnaryOp) and isinstance(t.op, ast.Not) and isinstance(t.operand, ast.Name) \
+                    and t.operand.id in stable:
+                return t.operand.id, False
+            return None
+        one = lit(test)
+        if one:
+            return {one[0]: one[1]}, {one[0]: not one[1]}
+        if isinstance(test, ast.BoolOp):
+            lits = [x for x in map(lit, test.values) if x]
+            if isinstance(test.op, ast.And):
+                return dict(lits), {}
+            return {}, {k: not v for k, v in lits}
+        return {}, {}
+
+    def as_ifelse(stmts: list[ast.stmt]):
+        """A block that is one decision: `[if T: X else: Y]` or the un-nested `[if T: X↓, *Y]`  ->  (T, X, Y)."""
+        if stmts and isinstance(stmts[0], ast.If):
+            f = stmts[0]
+            if len(stmts) == 1:
+                return f.test, f.body, f.orelse
+            if not f.orelse and _always_ends(f.body):
+                return f.test, f.body, stmts[1:]
+        return None
+
+    def conj(op, a: ast.expr, b: ast.expr) -> ast.expr:
+        vals: list[ast.expr] = []
+        for t in (a, b):
+            vals += t.values if isinstance(t, ast.BoolOp) and type(t.op) is type(op) else [t]
+        return ast.BoolOp(op=op, values=vals)
+
+    def bool_return(b: list[ast.stmt]):
+        if len(b) == 1 and isinstance(b[0], ast.Return) and isinstance(b[0].value, ast.Constant) \
+                and isinstance(b[0].value.value, bool):
+            return b[0].value.value
+        return None
+
+    def block(stmts: list[ast.stmt], tail: str | None, key, known: dict[str, bool], stable: set[str]) -> list[ast.stmt]:
+        stmts = _merge_ifs(list(stmts))
         _alias_elements(stmts)
         out: list[ast.stmt] = []
         i = 0
         while i < len(stmts):
             s = stmts[i]
-            for field in ("body", "orelse", "finalbody"):
-                if isinstance(getattr(s, field, None), list) and not isinstance(s, ast.FunctionDef):
-                    setattr(s, field, block(getattr(s, field)))
+            rest = stmts[i + 1:]
             if isinstance(s, ast.If):
-                # `if A: (if B: X)` with no `else` anywhere  ==  `if A and B: X`
-                while (not s.orelse and len(s.body) == 1 and isinstance(s.body[0], ast.If) and not s.body[0].orelse):
-                    inner = s.body[0]
-                    parts = []
-                    for t in (s.test, inner.test):
-                        parts += t.values if isinstance(t, ast.BoolOp) and isinstance(t.op, ast.And) else [t]
-                    s.test, s.body = ast.BoolOp(op=ast.And(), values=parts), inner.body
-                pos = _positive(s.test)
-                if pos is not None and s.orelse:
-                    s.test, s.body, s.orelse = pos, s.orelse, s.body
-                elif (pos is not None and _ends(s.body) and i + 2 == len(stmts) and _ends([stmts[i + 1]])
-                      and not isinstance(stmts[i + 1], (ast.If, ast.For, ast.While, ast.With, ast.Try))):
-                    out.append(ast.If(test=pos, body=[stmts[i + 1]], orelse=[]))
-                    out.extend(s.body)
+                s.test = with_facts(s.test, known)
+                if isinstance(s.test, ast.Constant) and isinstance(s.test.value, bool):
+                    stmts = stmts[:i] + (s.body if s.test.value else s.orelse) + rest
+                    continue
+                if rest and (_may_end(s) or (len(rest) == 1 and isinstance(rest[0], (ast.Return, ast.Raise)))):
+                    # some path leaves the block early (or all that follows is `return …` / `raise …`): the rest of
+                    # the block belongs to the paths that go on
+                    if not _always_ends(s.body):
+                        s.body = s.body + copy.deepcopy(rest)
+                    if not _always_ends(s.orelse):
+                        s.orelse = s.orelse + copy.deepcopy(rest)
+                    rest = []
+                    stmts = stmts[:i + 1]
+                sub = tail if not rest else None
+                fb, fo = facts_of(s.test, stable)
+                s.body = block(s.body, sub, key, {**known, **fb}, stable)
+                s.orelse = block(s.orelse, sub, key, {**known, **fo}, stable)
+                test_reads = _reads(s.test, scope.final)
+                if s.body and s.orelse and _total(s.test):
+                    # what both branches start with happens before the decision (if it cannot change the test) …
+                    while (s.body and s.orelse and _dump(s.body[0]) == _dump(s.orelse[0])
+                           and not _interferes(_writes(s.body[0], scope.final), test_reads)):
+                        out.append(s.body[0])
+                        s.body, s.orelse = s.body[1:], s.orelse[1:]
+                    # … and what both end with happens after it (when no path leaves the block inside the `if`)
+                    if not _may_end(s):
+                        suffix: list[ast.stmt] = []
+                        while s.body and s.orelse and _dump(s.body[-1]) == _dump(s.orelse[-1]):
+                            suffix.insert(0, s.body[-1])
+                            s.body, s.orelse = s.body[:-1], s.orelse[:-1]
+                        if suffix:
+                            rest = suffix + rest
+                            stmts = stmts[:i + 1] + rest
+                if not s.body and not s.orelse:
+                    if not _total(s.test):
+                        out.append(ast.Expr(value=s.test))
+                    i += 1
+                    continue
+                if _dump(s.body) == _dump(s.orelse) and _total(s.test):
+                    stmts = stmts[:i] + s.body + rest            # both branches do the same
+                    continue
+                changed = True
+                while changed:
+                    changed = False
+                    if not s.body:
+                        s.test, s.body, s.orelse = negate(s.test), s.orelse, []
+                    elif s.orelse:
+                        eb, eo = _always_ends(s.body), _always_ends(s.orelse)
+                        if eb and eo:  # both end: a branch that is nothing but `raise …` (or `return …`) is the guard
+                            def guard(b: list[ast.stmt]) -> int:
+                                return 0 if len(b) != 1 or isinstance(b[0], ast.If) else 2 if isinstance(b[0], ast.Raise) else 1
+                            eb, eo = guard(s.body) > guard(s.orelse), guard(s.orelse) > guard(s.body)
+                        # exactly one branch ends: that one comes first (a guard); otherwise the test is made positive
+                        if (eo and not eb) or (eb == eo and is_negative(s.test)):
+                            s.test, s.body, s.orelse = negate(s.test), s.orelse, s.body
+                    # `if A and B: X else: (if A: Y else: R)`  ==  `if A: (if B: X else: Y) else: R`   (A pure)
+                    if s.orelse and isinstance(s.test, ast.BoolOp) and isinstance(s.test.op, ast.And):
+                        inner = as_ifelse(s.orelse)
+                        if inner is not None:
+                            t, y, r_ = inner
+                            tv = t.values if isinstance(t, ast.BoolOp) and isinstance(t.op, ast.And) else [t]
+                            k = len(tv)
+                            if (k < len(s.test.values) and _dump(tv) == _dump(s.test.values[:k])
+                                    and all(not _reads(x, scope.final).impure for x in tv)):
+                                restv = s.test.values[k:]
+                                b = restv[0] if len(restv) == 1 else ast.BoolOp(op=ast.And(), values=restv)
+                                nested = block([ast.If(test=b, body=s.body, orelse=y)], sub, key, known, stable)
+                                s.test, s.body, s.orelse, changed = t, nested, r_, True
+                                continue
+                    # nested decisions with a common outcome are one decision over `and` / `or`
+                    inner = as_ifelse(s.body)
+                    if inner is not None:
+                        t, x, y = inner
+                        if _dump(y) == _dump(s.orelse):          # if A: (if B: X else: Y) else: Y
+                            s.test, s.body, changed = conj(ast.And(), s.test, t), x, True
+                        elif _dump(x) == _dump(s.orelse) and y:  # if A: (if B: Y else: X) else: Y
+                            s.test, s.body, changed = conj(ast.And(), s.test, negate(t)), y, True
+                    if not changed and s.orelse:
+                        inner = as_ifelse(s.orelse)
+                        if inner is not None:
+                            t, x, y = inner
+                            if _dump(x) == _dump(s.body):        # if A: X else: (if B: X else: Y)
+                                s.test, s.orelse, changed = conj(ast.Or(), s.test, t), y, True
+                            elif _dump(y) == _dump(s.body):      # if A: X else: (if B: Y else: X)
+                                s.test, s.orelse, changed = conj(ast.Or(), s.test, negate(t)), x, True
+                # boolean functions: `if C: return True else: return E`  ==  `return C or E`  (E boolean), …
+                if s.orelse and _is_bool(s.test):
+                    bt, bf = bool_return(s.body), bool_return(s.orelse)
+                    ret = None
+                    if bt is not None and bf is not None and bt is not bf:
+                        ret = s.test if bt else negate(s.test)
+                    elif bt is not None and len(s.orelse) == 1 and isinstance(s.orelse[0], ast.Return) \
+                            and s.orelse[0].value is not None and _is_bool(s.orelse[0].value):
+                        e = s.orelse[0].value
+                        ret = conj(ast.Or(), s.test, e) if bt else conj(ast.And(), negate(s.test), e)
+                    elif bf is not None and len(s.body) == 1 and isinstance(s.body[0], ast.Return) \
+                            and s.body[0].value is not None and _is_bool(s.body[0].value):
+                        e = s.body[0].value
+                        ret = conj(ast.Or(), negate(s.test), e) if bf else conj(ast.And(), s.test, e)
+                    if ret is not None:
+                        out.append(ast.Return(value=ret))
+                        break
+                if s.orelse and _always_ends(s.body):            # un-nest the `else` of a branch that ends
+                    tail_stmts, s.orelse = s.orelse, []
+                    out.append(s)
+                    out.extend(tail_stmts)
+                    if rest:                                     # (cannot happen: the rest was moved into the branches)
+                        raise Bad(f"{fn.name}: internal error (statements after a decision that ends)")
                     break
+                out.append(s)
+                i += 1
+                continue
+            if isinstance(s, (ast.For, ast.While)):
+                s.body = block(s.body, "loop", key, known, stable)
+                s.orelse = block(s.orelse, None, key, known, stable)
+                if isinstance(s, ast.For):
+                    rest_copy = list(rest)
+                    rep = _loop_as_comprehension(s, out, rest_copy, outside_uses_of(s))
+                    if rep is not None:
+                        stmts = stmts[:i] + rep + rest_copy
+                        continue
+                out.append(s)
+                i += 1
+                continue
+            if isinstance(s, ast.Try):
+                s.body = block(s.body, None, key, known, stable)
+                s.orelse = block(s.orelse, None, key, known, stable)
+                s.finalbody = block(s.finalbody, None, key, known, stable)
+                for h in s.handlers:
+                    h.body = block(h.body, None, key, known, stable)
+            elif isinstance(s, ast.With):
+                s.body = block(s.body, None, key, known, stable)
             out.append(s)
             i += 1
-        # `v = E; return v`  ==  `return E`
+            if isinstance(s, (ast.Return, ast.Raise, ast.Continue, ast.Break)):
+                break                                            # what follows is unreachable
+        # `v = E; return v`  ==  `return E`   (whatever else `v` is used for: the function is left)
         if (len(out) >= 2 and isinstance(out[-1], ast.Return) and isinstance(out[-1].value, ast.Name)
                 and isinstance(out[-2], ast.Assign) and len(out[-2].targets) == 1
-                and isinstance(out[-2].targets[0], ast.Name) and out[-2].targets[0].id == out[-1].value.id):
+                and isinstance(out[-2].targets[0], ast.Name) and out[-2].targets[0].id == out[-1].value.id
+                and out[-1].value.id in local_names()):
             out[-2:] = [ast.Return(value=out[-2].value)]
+        # a trailing `continue` / bare `return` does nothing
+        while out and ((tail == "loop" and isinstance(out[-1], ast.Continue))
+                       or (tail == "fn" and isinstance(out[-1], ast.Return) and out[-1].value is None)):
+            out.pop()
         return _normal_order(out, key)
 
-    fn.body = block(fn.body)
+    fn.body = [s for s in (_Rewrite().visit(s) for s in fn.body) if s is not None]
+    fn.body = [x for s in fn.body for x in (s if isinstance(s, list) else [s])]
     ast.fix_missing_locations(fn)
-    return fn
+    prev = None
+    for _ in range(40):
+        fn.body = _inline_helpers(fn.body, scope, depth)
+        # the rewrites of single nodes again: inlining and merging create new opportunities
+        body = []
+        for s in fn.body:
+            r = _Rewrite().visit(s)
+            if r is not None:
+                body += r if isinstance(r, list) else [r]
+        fn.body = body
+        mark_leaks()
+        for flag in reversed(flag_params()):
+            # a case split on a boolean parameter at the very top: whatever way its tests are arranged in the source,
+            # each half is the function specialised to one value (the halves are merged again where they agree)
+            fn.body = [ast.If(test=_name(flag), body=fn.body, orelse=copy.deepcopy(fn.body))]
+        fn.body = block(fn.body, "fn", key_fn(), {}, stable_names())
+        while _split_definitions(fn) or _inline_locals(fn, scope.final):
+            pass
+        _alpha(fn, "__t")
+        _alpha(fn, "_")
+        ast.fix_missing_locations(fn)
+        cur = ast.dump(fn)
+        if cur == prev:
+            return fn
+        prev = cur
+    raise Bad(f"{fn.name}: the normal form does not converge")
 
 
-def find_method(tree: ast.Module, cls: str, name: str, like: list[str] | None = None) -> ast.FunctionDef:
-    """The implementation of `cls.name` in normal form (see above).  With `like` (recorded skeletons): locals are then
-    renamed, by position of their first binding, to the names used in the first skeleton with the same number of
-    locals — a renamed local variable or parameter changes nothing for the extractor."""
-    fn = None
+# ============================================================================= 3. patterns
+class _NoMatch(Exception):
+    pass
+
+
+def _order_free(e: ast.expr) -> bool:
+    """May the operands of `and`/`or` be evaluated in any order?"""
+    return _total(e)
+
+
+class _Unifier:
+    def __init__(self, pat_fn: ast.FunctionDef, fn: ast.FunctionDef):
+        self.pat_locals = set(_bound_names(pat_fn))
+        self.fn_locals = set(_bound_names(fn))
+        self.ren: dict[str, str] = {}
+        self.inv: dict[str, str] = {}
+        self.holes: dict[str, ast.expr] = {}
+
+    def name(self, p: str, a: str) -> None:
+        if p == "self" or a == "self":
+            if p != a:
+                raise _NoMatch(f"name {a!r} where {p!r} is expected")
+            return
+        if p in self.pat_locals:
+            if a not in self.fn_locals:
+                raise _NoMatch(f"{a!r} is not a local (pattern local {p!r})")
+            if self.ren.setdefault(p, a) != a or self.inv.setdefault(a, p) != p:
+                raise _NoMatch(f"local {a!r} does not play the role of {p!r} consistently")
+        elif p != a or a in self.fn_locals:
+            raise _NoMatch(f"name {a!r} where {p!r} is expected")
+
+    def snapshot(self):
+        return dict(self.ren), dict(self.inv), dict(self.holes)
+
+    def restore(self, snap) -> None:
+        self.ren, self.inv, self.holes = snap
+
+    def hole(self, label: str, a: ast.AST) -> None:
+        if not isinstance(a, ast.expr):
+            raise _NoMatch(f"hole {label} needs an expression")
+        if label in self.holes and ast.dump(self.holes[label]) != ast.dump(a):
+            raise _NoMatch(f"hole {label} bound twice")
+        self.holes[label] = a
+
+    def unify(self, p, a) -> None:
+        if isinstance(p, ast.Name) and p.id.startswith("HOLE_"):
+            return self.hole(p.id[5:], a)
+        if isinstance(p, list):
+            if not isinstance(a, list) or len(p) != len(a):
+                raise _NoMatch(f"{len(a) if isinstance(a, list) else '?'} item(s) where {len(p)} are expected: "
+                               f"`{_show(a)}` vs `{_show(p)}`")
+            for x, y in zip(p, a):
+                self.unify(x, y)
+            return
+        if not isinstance(p, ast.AST):
+            if p != a:
+                raise _NoMatch(f"{a!r} where {p!r} is expected")
+            return
+        if type(p) is not type(a):
+            raise _NoMatch(f"`{_show(a)}` where `{_show(p)}` is expected")
+        if isinstance(p, ast.Name):
+            return self.name(p.id, a.id)
+        if isinstance(p, ast.arg):
+            return self.name(p.arg, a.arg)
+        if isinstance(p, ast.BoolOp):
+            return self.boolop(p, a)
+        if isinstance(p, ast.Call) and all(k.arg for k in p.keywords + a.keywords):
+            # keyword arguments in any order (their values are evaluated in another order: only side effects differ,
+            # and a call with side effects in an argument does not unify with any pattern)
+            self.unify(p.func, a.func)
+            self.unify(p.args, a.args)
+            pk, ak = sorted(p.keywords, key=lambda k: k.arg), sorted(a.keywords, key=lambda k: k.arg)
+            if [k.arg for k in pk] != [k.arg for k in ak]:
+                raise _NoMatch(f"`{_show(a)}` where `{_show(p)}` is expected")
+            for x, y in zip(pk, ak):
+                self.unify(x.value, y.value)
+            return
+        for field in p._fields:
+            if field in ("ctx", "type_comment", "lineno", "col_offset", "end_lineno", "end_col_offset", "kind"):
+                continue
+            self.unify(getattr(p, field, None), getattr(a, field, None))
+
+    def boolop(self, p: ast.BoolOp, a: ast.BoolOp) -> None:
+        if type(p.op) is not type(a.op):
+            raise _NoMatch(f"`{_show(a)}` where `{_show(p)}` is expected")
+        is_hole = lambda x: isinstance(x, ast.Name) and x.id.startswith("HOLE_")  # noqa: E731
+        holes = [x for x in p.values if is_hole(x)]
+        fixed = [x for x in p.values if not is_hole(x)]
+        if len(holes) > 1:
+            raise Bad("pattern: more than one hole in one and/or")
+        avail = list(a.values)
+        if all(_order_free(x) for x in a.values):
+            for x in fixed:                                   # any order
+                for k, y in enumerate(avail):
+                    snap = self.snapshot()
+                    try:
+                        self.unify(x, y)
+                        del avail[k]
+                        break
+                    except _NoMatch:
+                        self.restore(snap)
+                else:
+                    raise _NoMatch(f"no operand `{_show(x)}` in `{_show(a)}`")
+        else:                                                 # source order; the hole takes what is left in its place
+            pos = [k for k, x in enumerate(p.values) if is_hole(x)]
+            n_extra = len(a.values) - len(fixed)
+            k = 0
+            rest: list[ast.expr] = []
+            for j, x in enumerate(p.values):
+                if pos and j == pos[0]:
+                    if n_extra < 1:
+                        raise _NoMatch(f"`{_show(a)}` where `{_show(p)}` is expected")
+                    rest = a.values[k:k + n_extra]
+                    k += n_extra
+                else:
+                    if k >= len(a.values):
+                        raise _NoMatch(f"`{_show(a)}` where `{_show(p)}` is expected")
+                    self.unify(x, a.values[k])
+                    k += 1
+            if k != len(a.values):
+                raise _NoMatch(f"`{_show(a)}` where `{_show(p)}` is expected")
+            avail = rest
+        if holes:
+            if not avail:
+                raise _NoMatch(f"nothing left for {holes[0].id} in `{_show(a)}`")
+            self.hole(holes[0].id[5:], avail[0] if len(avail) == 1 else ast.BoolOp(op=a.op, values=avail))
+        elif avail:
+            raise _NoMatch(f"extra operand `{_show(avail[0])}` in `{_show(a)}`")
+
+
+def _show(n) -> str:
+    try:
+        if isinstance(n, list):
+            return "; ".join(_show(x) for x in n)[:160]
+        if isinstance(n, ast.AST):
+            return ast.unparse(ast.fix_missing_locations(copy.deepcopy(n))).replace("\n", " ⏎ ")[:160]
+    except Exception:  # pragma: no cover
+        pass
+    return repr(n)[:160]
+
+
+def show(fn: ast.FunctionDef) -> str:
+    return "\n".join(line.rstrip() for line in ast.unparse(ast.fix_missing_locations(copy.deepcopy(fn))).splitlines())
+
+
+def match(fn: ast.FunctionDef, patterns: list[str], what: str) -> tuple[int, dict[str, ast.expr]]:
+    """Unify the normal form `fn` with the first pattern that fits.  Returns (index, holes); the expressions bound to
+    the holes are given with the pattern's local names."""
+    errors = []
+    for i, text in enumerate(patterns):
+        pat = ast.parse(text.strip("\n")).body[0]
+        assert isinstance(pat, ast.FunctionDef)
+        u = _Unifier(pat, fn)
+        try:
+            if pat.name != fn.name:
+                raise _NoMatch("name")
+            u.unify(pat.args, fn.args)
+            u.unify(pat.body, fn.body)
+        except _NoMatch as e:
+            errors.append(str(e))
+            continue
+        back = {a: p for p, a in u.ren.items()}
+        # two-step renaming so that a swap of two names cannot collide
+        tmp = {a: f"__rb{k}" for k, a in enumerate(back)}
+        fin = {f"__rb{k}": back[a] for k, a in enumerate(back)}
+        return i, {k: _rename(_rename(v, tmp), fin) for k, v in u.holes.items()}
+    raise Bad(f"{what}: the method does not have the recorded structure ({' | '.join(errors)}):\n{show(fn)}")
+
+
+def find_method(tree: ast.Module, cls: str, name: str) -> ast.FunctionDef:
+    """The implementation of `cls.name` in normal form."""
     for c in tree.body:
         if isinstance(c, ast.ClassDef) and c.name == cls:
             found = [f for f in c.body if isinstance(f, ast.FunctionDef) and f.name == name]
             # `@overload` stubs come first: the implementation is the last definition
             if found:
-                fn = found[-1]
-    if fn is None:
-        raise Bad(f"{cls}.{name} not found")
-    fn = normalize(fn)
-    cur = _bindings(fn)
-    for sk in like or []:
-        ref = _bindings(ast.parse(sk.strip("\n")).body[0])  # type: ignore[arg-type]
-        if len(ref) == len(cur):
-            if ref != cur:
-                # two-step renaming so that a swap of two names cannot collide
-                tmp = {c_: f"__rb{i}" for i, c_ in enumerate(cur)}
-                fn = _rename(_rename(fn, tmp), {f"__rb{i}": r for i, r in enumerate(ref)})
-                fn = normalize(fn)   # (the order of independent statements does not depend on local names)
-            break
-    return fn
-
-
-def expect(fn: ast.FunctionDef, holes: dict[int, str], accepted: list[str], what: str) -> int:
-    sk = skeleton(fn, holes)
-    for i, a in enumerate(accepted):
-        if sk == a.strip("\n"):
-            return i
-    raise Bad(f"{what}: unexpected statement skeleton:\n{sk}")
+                return normalize(found[-1], _Scope(tree, c))
+    raise Bad(f"{cls}.{name} not found")
 
 
 # names shared by most methods
@@ -490,6 +1882,120 @@ COMMON = {
 }
 
 
+# ============================================================================= self-test:  python3 _rb_common.py
+# Pairs of methods `f` that must NOT get the same normal form (the second is a behaviour-changing variant of the
+# first that a careless rewrite rule would identify with it), and pairs that must.
+_DIFFERENT = [
+    ("a state query moved behind an attribute assignment",
+     "def f(self, t):\n    x = self.to_internal_index(t)\n    self._a = 1\n    self._buffer[x] = 0\n",
+     "def f(self, t):\n    self._a = 1\n    self._buffer[self.to_internal_index(t)] = 0\n"),
+    ("a common first statement hoisted over an impure test",
+     "def f(self):\n    if self._c():\n        self._s()\n        self._x()\n    else:\n        self._s()\n        self._y()\n",
+     "def f(self):\n    self._s()\n    if self._c():\n        self._x()\n    else:\n        self._y()\n"),
+    ("an element read after it was deleted",
+     "def f(self):\n    y = self._gaps[0]\n    del self._gaps[0]\n    return y\n",
+     "def f(self):\n    del self._gaps[0]\n    return self._gaps[0]\n"),
+    ("an attribute read after it was assigned",
+     "def f(self, gap, t):\n    v = gap.end\n    gap.end = t\n    return v\n",
+     "def f(self, gap, t):\n    gap.end = t\n    return gap.end\n"),
+    ("len() after append",
+     "def f(self, g):\n    n = len(self._gaps)\n    self._gaps.append(g)\n    return n\n",
+     "def f(self, g):\n    self._gaps.append(g)\n    return len(self._gaps)\n"),
+    ("the same attribute of a possibly aliased object",
+     "def f(self, w_1, w_2):\n    a = w_1.end\n    w_2.end = 0\n    return a\n",
+     "def f(self, w_1, w_2):\n    w_2.end = 0\n    return w_1.end\n"),
+    ("the argument of a stateless call mutated",
+     "def f(self, sample):\n    m = self.has_value(sample)\n    sample.value = None\n    return m\n",
+     "def f(self, sample):\n    sample.value = None\n    return self.has_value(sample)\n"),
+    ("an unknown call between a stateless call and its use",
+     "def f(self, sample):\n    m = self.has_value(sample)\n    self._reset(sample)\n    return m\n",
+     "def f(self, sample):\n    self._reset(sample)\n    return self.has_value(sample)\n"),
+    ("an expression that may raise moved behind a side effect",
+     "def f(self, a):\n    x = a.b\n    self._n = 1\n    return x\n",
+     "def f(self, a):\n    self._n = 1\n    return a.b\n"),
+    ("a name that is re-assigned",
+     "def f(self, a, b):\n    s = a + 1\n    a = b\n    return s + a\n",
+     "def f(self, a, b):\n    a = b\n    return a + 1 + a\n"),
+    ("the guard of an `and` moved behind the guarded operand",
+     "def f(self, w):\n    if w and w.end > 0:\n        return 1\n    return 0\n",
+     "def f(self, w):\n    if w.end > 0 and w:\n        return 1\n    return 0\n"),
+    ("a search loop without its break",
+     "def f(self, t):\n    g = None\n    for c in self._gaps:\n        if c.contains(t):\n            g = c\n            break\n    return g\n",
+     "def f(self, t):\n    g = None\n    for c in self._gaps:\n        if c.contains(t):\n            g = c\n    return g\n"),
+    ("the start value of a sum",
+     "def f(self):\n    a = 0\n    for g in self._gaps:\n        a += g.end\n    return a\n",
+     "def f(self):\n    a = 1\n    for g in self._gaps:\n        a += g.end\n    return a\n"),
+    ("continue vs return in a loop",
+     "def f(self, xs):\n    for x in xs:\n        if x.bad:\n            continue\n        self._use(x)\n",
+     "def f(self, xs):\n    for x in xs:\n        if x.bad:\n            return\n        self._use(x)\n"),
+    ("a statement moved into a loop",
+     "def f(self, xs):\n    for x in xs:\n        self._use(x)\n    self._done()\n",
+     "def f(self, xs):\n    for x in xs:\n        self._use(x)\n        self._done()\n"),
+    ("two impure steps swapped",
+     "def f(self, a):\n    if a:\n        self._x()\n    self._y()\n    return 1\n",
+     "def f(self, a):\n    self._y()\n    if a:\n        self._x()\n    return 1\n"),
+    ("a statement moved into a branch that can return before it",
+     "def f(self, a, b):\n    if a:\n        if b:\n            return 0\n        self._x()\n    self._y()\n",
+     "def f(self, a, b):\n    if a:\n        if b:\n            return 0\n        self._x()\n        self._y()\n"),
+    ("a helper with a side effect called twice",
+     "def _h(self):\n    self._n += 1\n    return self._n\ndef f(self):\n    v = self._h()\n    return v + v\n",
+     "def _h(self):\n    self._n += 1\n    return self._n\ndef f(self):\n    return self._h() + self._h()\n"),
+]
+_SAME = [
+    ("guard clauses vs nested ifs",
+     "def f(self, a, b):\n    if not a:\n        return 0\n    if not b:\n        return 0\n    return self._x()\n",
+     "def f(self, a, b):\n    if a:\n        if b:\n            return self._x()\n    return 0\n"),
+    ("a boolean expression vs a chain of guards and a loop",
+     "def f(self, a):\n    return a.x > 0 and a.y < 3 and all(g.ok() is True for g in a.gs)\n",
+     "def f(self, a):\n    if a.x <= 0:\n        return False\n    if not a.y < 3:\n        return False\n"
+     "    for g in a.gs:\n        if not g.ok() is True:\n            return False\n    return True\n"),
+    ("tests on a flag parameter arranged differently",
+     "def f(self, flag, t):\n    if flag and t > 0:\n        self._x()\n    elif not flag:\n        self._y()\n    self._z()\n",
+     "def f(self, flag, t):\n    if not flag:\n        self._y()\n        self._z()\n        return\n"
+     "    if t > 0:\n        self._x()\n    self._z()\n"),
+    ("an extracted private helper",
+     "def f(self, t):\n    if self._late(t, self._p):\n        raise ValueError('x')\n    return t\n"
+     "def _late(self, t, p):\n    return t > self._n + p\n",
+     "def f(self, t):\n    if t > self._n + self._p:\n        raise ValueError('late')\n    return t\n"),
+    ("assign-then-return vs early return",
+     "def f(self, w, v):\n    r = self._a(w)\n    if v is not None:\n        r = self._b(r, v)\n    return r\n",
+     "def f(self, w, v):\n    r = self._a(w)\n    if v is None:\n        return r\n    return self._b(r, v)\n"),
+    ("a search loop vs next(filter(…))",
+     "def f(self, t):\n    i, g = next(filter(lambda e: e[1].contains(t), enumerate(self._gaps)), (0, None))\n    return i, g\n",
+     "def f(self, t):\n    idx = 0\n    found = None\n    for k, c in enumerate(self._gaps):\n        if c.contains(t):\n"
+     "            idx, found = k, c\n            break\n    return idx, found\n"),
+]
 
-def _if_tests(stmts: list[ast.stmt]) -> list[ast.If]:
-    return [s for s in stmts if isinstance(s, ast.If)]
+
+def _selftest() -> int:
+    import textwrap
+
+    def form(src: str) -> ast.FunctionDef:
+        mod = ast.parse("class C:\n" + textwrap.indent(src, "    "))
+        cls = mod.body[0]
+        assert isinstance(cls, ast.ClassDef)
+        fn = [x for x in cls.body if isinstance(x, ast.FunctionDef) and x.name == "f"][0]
+        return normalize(fn, _Scope(mod, cls))
+
+    def same(a: str, b: str) -> bool:
+        try:
+            match(form(b), [show(form(a))], "selftest")
+            return True
+        except Bad:
+            return False
+
+    bad = 0
+    for name, a, b in _DIFFERENT:
+        if same(a, b):
+            bad += 1
+            print("IDENTIFIED (must differ):", name)
+    for name, a, b in _SAME:
+        if not same(a, b):
+            bad += 1
+            print("NOT IDENTIFIED (must be the same):", name, show(form(a)), show(form(b)), sep="\n")
+    print(f"self-test: {len(_DIFFERENT) + len(_SAME)} pairs, {bad} problem(s)")
+    return bad
+
+
+if __name__ == "__main__":
+    raise SystemExit(1 if _selftest() else 0)
